@@ -60,7 +60,7 @@ Proof. reflexivity. Qed.
 Lemma cpop_cpush d ds : cpop (cpush d ds) = ds.
 Proof. apply removelast_last. Qed.
 
-Lemma cset_snoc k v ds d : cset k v (ds ++ [d]) = ds ++ [lset k v d].
+Lemma cset_snoc k v (ds : list layer) (d : layer) : cset k v (ds ++ [d]) = ds ++ [lset k v d].
 Proof.
   induction ds as [|x r IH]; [reflexivity|].
   change ((x :: r) ++ [d]) with (x :: (r ++ [d])).
@@ -376,4 +376,1457 @@ Lemma ctx_restored_list_lemma md lib fuel ts g c a g' c' :
   mrender_list md lib fuel g c ts = MOk (a, g', c') -> c' = c.
 Proof.
   unfold mrender_list. apply mrl_restores. intros g0 c0 t0 a0 g0' c0' H0. eapply ctx_restored_lemma; exact H0.
+Qed.
+
+(* ======================================================================================================== *)
+(* 3. M refines S on the fragment wf_prog                                                                    *)
+(* ======================================================================================================== *)
+
+(* ---------- lookups ---------- *)
+Lemma str_eqb_sym a b : str_eqb a b = str_eqb b a.
+Proof.
+  destruct (str_eqb a b) eqn:E1, (str_eqb b a) eqn:E2; try reflexivity.
+  - apply str_eqb_eq in E1. subst. rewrite str_eqb_refl in E2. discriminate.
+  - apply str_eqb_eq in E2. subst. rewrite str_eqb_refl in E1. discriminate.
+Qed.
+
+Lemma str_eqb_neq a b : a <> b -> str_eqb a b = false.
+Proof. intro H. destruct (str_eqb a b) eqn:E; [apply str_eqb_eq in E; contradiction|reflexivity]. Qed.
+
+Lemma slookup_lset {k : str} {v : cval} l x : slookup x (lset k v l) = if str_eqb x k then Some v else slookup x l.
+Proof.
+  induction l as [|[k' v'] r IH]; cbn [lset slookup].
+  - destruct (str_eqb x k); reflexivity.
+  - destruct (str_eqb k k') eqn:E.
+    + apply str_eqb_eq in E. subst k'. cbn [slookup]. destruct (str_eqb x k); reflexivity.
+    + cbn [slookup]. destruct (str_eqb x k') eqn:E2.
+      * apply str_eqb_eq in E2. subst k'. rewrite str_eqb_sym, E. reflexivity.
+      * exact IH.
+Qed.
+
+Lemma cget_app k (a b : list layer) : cget k (a ++ b) = match cget k b with Some v => Some v | None => cget k a end.
+Proof.
+  induction a as [|d r IH]; cbn [app cget].
+  - destruct (cget k b); reflexivity.
+  - rewrite IH. destruct (cget k b); reflexivity.
+Qed.
+
+Lemma cget_snoc k (ds : list layer) (d : layer) : cget k (ds ++ [d]) = match slookup k d with Some v => Some v | None => cget k ds end.
+Proof. rewrite cget_app. cbn [cget]. destruct (slookup k d); reflexivity. Qed.
+
+Lemma cget_split k n ds : cget k ds = match cget k (skipn n ds) with Some v => Some v | None => cget k (firstn n ds) end.
+Proof. rewrite <- (firstn_skipn n ds) at 1. apply cget_app. Qed.
+
+Lemma cget_mid k (a : list layer) (e : layer) (b : list layer) : slookup k e = None -> cget k (a ++ e :: b) = cget k (a ++ b).
+Proof. intro H. rewrite !cget_app. cbn [cget]. rewrite H. destruct (cget k b); reflexivity. Qed.
+
+Lemma cget_mid_in k (a : list layer) (e : layer) (b : list layer) v : slookup k e = Some v -> cget k (a ++ b) = None -> cget k (a ++ e :: b) = Some v.
+Proof.
+  intros H Hn. rewrite cget_app in *. cbn [cget]. destruct (cget k b); [discriminate|]. rewrite H. reflexivity.
+Qed.
+
+Lemma cget_insert k i (e : layer) (ds : list layer) : slookup k e = None -> cget k (CtxStack.py_insertZ i e ds) = cget k ds.
+Proof. intro H. unfold CtxStack.py_insertZ. rewrite cget_mid by exact H. rewrite firstn_skipn. reflexivity. Qed.
+
+Lemma cget_insert_in k i (e : layer) (ds : list layer) v : slookup k e = Some v -> cget k ds = None -> cget k (CtxStack.py_insertZ i e ds) = Some v.
+Proof.
+  intros H Hn. unfold CtxStack.py_insertZ. apply cget_mid_in; [exact H|]. rewrite firstn_skipn. exact Hn.
+Qed.
+
+Lemma cget_cset k v (ds : list layer) (d : layer) x : cget x (cset k v (ds ++ [d])) = if str_eqb x k then Some v else cget x (ds ++ [d]).
+Proof.
+  rewrite cset_snoc, !cget_snoc, slookup_lset. destruct (str_eqb x k); reflexivity.
+Qed.
+
+Lemma slookup_app {V} x (a b : list (str * V)) :
+  slookup x (a ++ b) = match slookup x a with Some v => Some v | None => slookup x b end.
+Proof.
+  induction a as [|[k v] r IH]; [reflexivity|]. cbn [app slookup]. destruct (str_eqb x k); [reflexivity|exact IH].
+Qed.
+
+Lemma slookup_notin {V} x (l : list (str * V)) : ~ In x (map fst l) -> slookup x l = None.
+Proof.
+  induction l as [|[k v] r IH]; intro H; [reflexivity|]. cbn [slookup]. cbn in H.
+  destruct (str_eqb x k) eqn:E; [apply str_eqb_eq in E; subst; exfalso; apply H; left; reflexivity|].
+  apply IH. intro Hi. apply H. right. exact Hi.
+Qed.
+
+Lemma slookup_in {V} x (l : list (str * V)) v : slookup x l = Some v -> In x (map fst l).
+Proof.
+  induction l as [|[k w] r IH]; intro H; [discriminate|]. cbn [slookup] in H. cbn.
+  destruct (str_eqb x k) eqn:E; [apply str_eqb_eq in E; left; congruence|right; apply IH; exact H].
+Qed.
+
+Lemma slookup_map_cval x (l : env) :
+  slookup x (map (fun kv => (fst kv, CVal (snd kv))) l) = option_map CVal (slookup x l).
+Proof.
+  induction l as [|[k v] r IH]; [reflexivity|]. cbn [map slookup fst snd]. destruct (str_eqb x k); [reflexivity|exact IH].
+Qed.
+
+Lemma smemb_in x l : smemb x l = true <-> In x l.
+Proof.
+  induction l as [|y r IH]; cbn [smemb In]; [split; [discriminate|contradiction]|].
+  rewrite orb_true_iff, IH, str_eqb_eq. split; intros [H|H]; auto.
+Qed.
+
+Lemma smemb_notin x l : smemb x l = false -> ~ In x l.
+Proof. intros H Hi. apply smemb_in in Hi. congruence. Qed.
+
+(* ---------- names ---------- *)
+Lemma uname_not_underscore x : uname x = true -> starts_underscore x = false.
+Proof. unfold uname. intro H. apply andb_true_iff in H as [H _]. apply negb_true_iff in H. exact H. Qed.
+
+Lemma starts_inj_underscore k : starts_inj k = true -> starts_underscore k = true.
+Proof.
+  unfold starts_inj. replace INJ_PREFIX with (95%N :: List.tl INJ_PREFIX) by reflexivity.
+  destruct k as [|c r]; cbn [starts_with starts_underscore]; [discriminate|].
+  intro H. apply andb_true_iff in H as [H _]. apply N.eqb_eq in H. subst c. reflexivity.
+Qed.
+
+Lemma uname_not_inj x : uname x = true -> starts_inj x = false.
+Proof.
+  intro H. destruct (starts_inj x) eqn:E; [|reflexivity].
+  apply starts_inj_underscore in E. rewrite (uname_not_underscore _ H) in E. discriminate.
+Qed.
+
+Lemma uname_neq x k : uname x = true -> uname k = false -> x <> k.
+Proof. intros H1 H2 E. subst. congruence. Qed.
+
+Lemma uname_KEY : uname KEY = false. Proof. reflexivity. Qed.
+Lemma uname_GEN : uname GEN_FILL = false. Proof. reflexivity. Qed.
+Lemma uname_CVARS : uname CVARS = false. Proof. reflexivity. Qed.
+Lemma uname_FORLOOP : uname FORLOOP = false. Proof. reflexivity. Qed.
+
+(* keys that matter to the relation: user names and the four internal keys; none of them is an inject key *)
+Definition relevant (k : str) : Prop := uname k = true \/ k = KEY \/ k = CVARS \/ k = GEN_FILL \/ k = FORLOOP.
+
+Lemma relevant_not_inj k : relevant k -> starts_inj k = false.
+Proof. intros [H|[H|[H|[H|H]]]]; [apply uname_not_inj; exact H|subst; reflexivity..]. Qed.
+
+(* ---------- the extra_context of a slot in isolated mode holds inject keys only ---------- *)
+Lemma inj_fold_keys (l : layer) : forall acc k,
+  starts_inj k = false ->
+  slookup k (fold_left (fun a kv => if starts_inj (fst kv) then lset (fst kv) (snd kv) a else a) l acc) = slookup k acc.
+Proof.
+  induction l as [|[k' v'] r IH]; intros acc k Hk; [reflexivity|]. cbn [fold_left fst snd].
+  rewrite IH by exact Hk. destruct (starts_inj k') eqn:E; [|reflexivity].
+  rewrite slookup_lset. destruct (str_eqb k k') eqn:E2; [apply str_eqb_eq in E2; subst; congruence|reflexivity].
+Qed.
+
+Lemma slot_extra_isolated ci filled ds extra k :
+  slot_extra Isolated ci filled ds = MOk extra -> starts_inj k = false -> slookup k extra = None.
+Proof.
+  unfold slot_extra. cbn [is_django]. rewrite andb_false_r. cbn [mbind]. intros H Hk. inversion H; subst.
+  rewrite inj_fold_keys by exact Hk. reflexivity.
+Qed.
+
+Lemma slot_extra_isolated_ok ci filled ds : exists extra, slot_extra Isolated ci filled ds = MOk extra.
+Proof. unfold slot_extra. cbn [is_django]. rewrite andb_false_r. cbn [mbind]. eauto. Qed.
+
+(* ---------- relation between a layer list and a lexical environment ---------- *)
+Definition vrel (ds : list layer) (loc : env) : Prop :=
+  forall x, uname x = true -> cget x ds = option_map CVal (slookup x loc).
+
+Definition clean (ds : list layer) : Prop := cget GEN_FILL ds = None /\ cget FORLOOP ds = None.
+
+(* values: what M computes for an expression vs what S computes *)
+Inductive crel : cval -> xvalue -> Prop :=
+| crel_val v : crel (CVal v) (XV v)
+| crel_bool b : crel (CBool b) (XBool b).
+
+Lemma crel_print cv xv : crel cv xv -> cprint cv = Some (print_x xv).
+Proof. intros []; reflexivity. Qed.
+Lemma crel_truthy cv xv : crel cv xv -> ctruthy cv = truthy xv.
+Proof. intros []; reflexivity. Qed.
+Lemma crel_value cv xv : crel cv xv -> cvalue cv = Some (to_value xv).
+Proof. intros []; reflexivity. Qed.
+Lemma crel_not_ref cv xv : crel cv xv -> forall b ro ru rd rv, cv <> CSlotRef b ro ru rd rv.
+Proof. intros [] *; discriminate. Qed.
+
+(* ---------- the simulation relation ---------- *)
+Inductive who := WBody | WPage | WInst (rid : N) (dl : list str).
+Definition is_body (w : who) : bool := match w with WBody => true | _ => false end.
+
+Definition dflt_ok (dl : list str) (ci : cinst) : Prop :=
+  match ci_default ci with None => True | Some d => forall n, In n dl -> n = d end.
+
+(* a fill as M stores it (slot function + the outer Context snapshot ds0 of its instance) vs the closure of S *)
+Definition frel (ds0 : list layer) (a : str * slotfn) (b : str * closure) : Prop :=
+  fst a = fst b /\
+  match snd b with
+  | Clo body btw cloc cout dv defv owner cprov =>
+      sf_body (snd a) = body /\ sf_dvar (snd a) = dv /\ sf_defvar (snd a) = None /\ defv = None /\ cout = [] /\ cprov = [] /\
+      (forall x, slookup x (match sf_extra (snd a) with Some e => e | None => [] end) = option_map CVal (slookup x btw)) /\
+      exists loc0 Gb, cloc = btw ++ loc0 /\ vrel ds0 loc0 /\
+        wf_l true (match dv with Some x => x :: Gb | None => Gb end) body = true /\
+        incl (map fst (btw ++ loc0)) Gb /\
+        (forall x, dv = Some x -> ~ In x Gb /\ binder_ok x = true) /\
+        (forall x, In x (map fst btw) -> ~ In x (map fst loc0) /\ uname x = true)
+  end.
+
+Definition irel (g : gstate) (ds : list layer) (rid : N) (dl : list str) (fills : list (str * closure)) : Prop :=
+  cget KEY ds = Some (CId rid) /\
+  cget CVARS ds = Some (CVars (map (fun kc => escape_name (fst kc)) fills)) /\
+  (rid < g_next g)%N /\
+  exists ci O, alookup rid (g_cctx g) = Some ci /\ ci_outer ci = Some O /\ clean (dicts O) /\
+               Forall2 (frel (dicts O)) (ci_fills ci) fills /\ dflt_ok dl ci.
+
+Definition srel (g : gstate) (c : ctxt) (st : state) (G : list str) (w : who) : Prop :=
+  out st = [] /\ prov st = [] /\ vrel (dicts c) (loc st) /\ incl (map fst (loc st)) G /\ clean (dicts c) /\
+  match w with
+  | WBody => True
+  | WPage => cur st = None /\ cget KEY (dicts c) = None /\ cget CVARS (dicts c) = None
+  | WInst rid dl => exists cn fills, cur st = Some (Inst cn fills true) /\ irel g (dicts c) rid dl fills
+  end.
+
+Definition epres (dl : list str) (a b : option cinst) : Prop :=
+  match a with
+  | Some ci => exists ci', b = Some ci' /\ ci_fills ci' = ci_fills ci /\ ci_outer ci' = ci_outer ci /\ (dflt_ok dl ci -> dflt_ok dl ci')
+  | None => True
+  end.
+
+Definition gext (w : who) (g g' : gstate) : Prop :=
+  (g_next g <= g_next g')%N /\
+  forall j, (j < g_next g)%N ->
+    match w with
+    | WInst rid dl => if N.eqb j rid then epres dl (alookup j (g_cctx g)) (alookup j (g_cctx g'))
+                      else alookup j (g_cctx g') = alookup j (g_cctx g)
+    | _ => alookup j (g_cctx g') = alookup j (g_cctx g)
+    end.
+
+Definition gexact (g g' : gstate) : Prop :=
+  (g_next g <= g_next g')%N /\ forall j, (j < g_next g)%N -> alookup j (g_cctx g') = alookup j (g_cctx g).
+
+Lemma epres_eq dl a b : b = a -> epres dl a b.
+Proof. intros ->. destruct a as [ci|]; cbn; [|exact I]. exists ci. auto. Qed.
+
+Lemma epres_trans dl a b c : epres dl a b -> epres dl b c -> epres dl a c.
+Proof.
+  destruct a as [ci|]; cbn; [|auto]. intros [ci' [-> [Hf [Ho Hd]]]] H2. cbn in H2.
+  destruct H2 as [ci'' [-> [Hf' [Ho' Hd']]]]. exists ci''. repeat split; try congruence. auto.
+Qed.
+
+Lemma gexact_gext w g g' : gexact g g' -> gext w g g'.
+Proof.
+  intros [Hn H]. split; [exact Hn|]. intros j Hj. specialize (H j Hj).
+  destruct w as [| |rid dl]; try exact H. destruct (N.eqb j rid); [apply epres_eq|]; exact H.
+Qed.
+
+Lemma gexact_refl g : gexact g g.
+Proof. split; [lia|reflexivity]. Qed.
+
+Lemma gexact_trans g1 g2 g3 : gexact g1 g2 -> gexact g2 g3 -> gexact g1 g3.
+Proof.
+  intros [H1 H2] [H3 H4]. split; [lia|]. intros j Hj. rewrite H4 by lia. apply H2. exact Hj.
+Qed.
+
+Lemma gext_refl w g : gext w g g.
+Proof. apply gexact_gext, gexact_refl. Qed.
+
+Lemma gext_trans w g1 g2 g3 : gext w g1 g2 -> gext w g2 g3 -> gext w g1 g3.
+Proof.
+  intros [H1 H2] [H3 H4]. split; [lia|]. intros j Hj.
+  specialize (H2 j Hj). specialize (H4 j ltac:(lia)).
+  destruct w as [| |rid dl]; try (rewrite H4; exact H2).
+  destruct (N.eqb j rid); [eapply epres_trans; eassumption|rewrite H4; exact H2].
+Qed.
+
+Lemma irel_gext g g' ds rid dl fills : irel g ds rid dl fills -> gext (WInst rid dl) g g' -> irel g' ds rid dl fills.
+Proof.
+  intros [Hk [Hv [Hlt [ci [O [Ha [Ho [Hc [Hf Hd]]]]]]]]] [Hn Hj].
+  specialize (Hj rid Hlt). cbn in Hj. rewrite N.eqb_refl, Ha in Hj. cbn in Hj.
+  destruct Hj as [ci' [Ha' [Hf' [Ho' Hd']]]].
+  split; [exact Hk|]. split; [exact Hv|]. split; [lia|].
+  exists ci', O. rewrite Hf', Ho'. repeat split; auto; apply Hc.
+Qed.
+
+Lemma srel_gext g g' c st G w : srel g c st G w -> gext w g g' -> srel g' c st G w.
+Proof.
+  intros [H1 [H2 [H3 [H4 [H5 H6]]]]] He. repeat (split; [assumption|]).
+  destruct w as [| |rid dl]; try exact H6.
+  destruct H6 as [cn [fills [Hc Hi]]]. exists cn, fills. split; [exact Hc|]. eapply irel_gext; eassumption.
+Qed.
+
+(* ---------- expressions ---------- *)
+Lemma lookup_loc st x : out st = [] -> lookup x st = slookup x (loc st).
+Proof. intro H. unfold lookup. rewrite H. destruct (slookup x (loc st)); reflexivity. Qed.
+
+Lemma existsb_map_escape s (fills : list (str * closure)) :
+  existsb (fun n => str_eqb n s) (map (fun kc => escape_name (fst kc)) fills) =
+  existsb (fun kc => str_eqb (escape_name (fst kc)) s) fills.
+Proof. induction fills as [|kc r IH]; [reflexivity|]. cbn [map existsb]. rewrite IH. reflexivity. Qed.
+
+Lemma meval_rel g c st G w e :
+  srel g c st G w -> expr_ok (is_body w) e = true -> crel (meval e (dicts c)) (eval e st).
+Proof.
+  intros [Ho [_ [Hv [_ [_ Hw]]]]] He. destruct e as [s|x|x f|s|]; cbn [meval eval expr_ok] in *.
+  - constructor.
+  - rewrite (Hv x He), (lookup_loc st x Ho). destruct (slookup x (loc st)); constructor.
+  - rewrite (Hv x He), (lookup_loc st x Ho). destruct (slookup x (loc st)) as [[s|l|fs]|]; cbn; try constructor.
+    destruct (slookup f fs); constructor.
+  - destruct w as [| |rid dl]; [discriminate| |].
+    + destruct Hw as [Hc [_ Hcv]]. rewrite Hcv, Hc. constructor.
+    + destruct Hw as [cn [fills [Hc [_ [Hcv _]]]]]. rewrite Hcv, Hc. cbn [inst_fills].
+      rewrite existsb_map_escape. constructor.
+  - discriminate.
+Qed.
+
+Lemma mkwargs_rel g c st G w kw :
+  srel g c st G w -> kw_ok (is_body w) kw = true -> mkwargs kw (dicts c) = Some (eval_kwargs kw st).
+Proof.
+  intros Hs. induction kw as [|[k e] r IH]; intro Hk; [reflexivity|].
+  cbn [kw_ok forallb snd] in Hk. apply andb_true_iff in Hk as [He Hr].
+  cbn [mkwargs eval_kwargs map fst snd]. rewrite (crel_value _ _ (meval_rel _ _ _ _ _ _ Hs He)).
+  unfold eval_kwargs in IH. rewrite (IH Hr). reflexivity.
+Qed.
+
+Lemma val_expr_ok_expr w e : val_expr_ok e = true -> expr_ok (is_body w) e = true.
+Proof. destruct e; cbn; intro H; try exact H; try reflexivity; discriminate. Qed.
+
+Lemma meval_val_rel g c st G w e :
+  srel g c st G w -> val_expr_ok e = true -> meval e (dicts c) = CVal (to_value (eval e st)).
+Proof.
+  intros [Ho [_ [Hv _]]] He. destruct e as [s|x|x f|s|]; try discriminate He; cbn [meval eval val_expr_ok expr_ok] in *.
+  - reflexivity.
+  - rewrite (Hv x He), (lookup_loc st x Ho). destruct (slookup x (loc st)); reflexivity.
+  - rewrite (Hv x He), (lookup_loc st x Ho). destruct (slookup x (loc st)) as [[s|l|fs]|]; cbn; try reflexivity.
+    destruct (slookup f fs); reflexivity.
+Qed.
+
+(* body-mode versions (no is_filled test), usable while fills are being collected *)
+Lemma meval_rel_b ds st e :
+  out st = [] -> vrel ds (loc st) -> expr_ok true e = true -> crel (meval e ds) (eval e st).
+Proof.
+  intros Ho Hv He. destruct e as [s|x|x f|s|]; cbn [meval eval expr_ok] in *; try discriminate.
+  - constructor.
+  - rewrite (Hv x He), (lookup_loc st x Ho). destruct (slookup x (loc st)); constructor.
+  - rewrite (Hv x He), (lookup_loc st x Ho). destruct (slookup x (loc st)) as [[s|l|fs]|]; cbn; try constructor.
+    destruct (slookup f fs); constructor.
+Qed.
+
+Lemma mkwargs_rel_b ds st kw :
+  out st = [] -> vrel ds (loc st) -> kw_ok true kw = true -> mkwargs kw ds = Some (eval_kwargs kw st).
+Proof.
+  intros Ho Hv. induction kw as [|[k e] r IH]; intro Hk; [reflexivity|].
+  cbn [kw_ok forallb snd] in Hk. apply andb_true_iff in Hk as [He Hr].
+  cbn [mkwargs eval_kwargs map fst snd]. rewrite (crel_value _ _ (meval_rel_b _ _ _ Ho Hv He)).
+  unfold eval_kwargs in IH. rewrite (IH Hr). reflexivity.
+Qed.
+
+Lemma meval_val_rel_b ds st e :
+  out st = [] -> vrel ds (loc st) -> val_expr_ok e = true -> meval e ds = CVal (to_value (eval e st)).
+Proof.
+  intros Ho Hv He. destruct e as [s|x|x f|s|]; try discriminate He; cbn [meval eval val_expr_ok expr_ok] in *.
+  - reflexivity.
+  - rewrite (Hv x He), (lookup_loc st x Ho). destruct (slookup x (loc st)); reflexivity.
+  - rewrite (Hv x He), (lookup_loc st x Ho). destruct (slookup x (loc st)) as [[s|l|fs]|]; cbn; try reflexivity.
+    destruct (slookup f fs); reflexivity.
+Qed.
+
+(* ---------- S: the local list traversal of extract is extract_list ---------- *)
+Lemma ex_list_eq tagprov ts : forall st btw,
+  (fix ex_list (st : state) (btw : env) (ts : list tpl) : res (str * list (str * closure)) :=
+     match ts with
+     | [] => Ok ([], [])
+     | t :: r => bind (extract tagprov st btw t) (fun a =>
+                 bind (ex_list st btw r) (fun b => Ok (fst a ++ fst b, snd a ++ snd b)))
+     end) st btw ts = extract_list tagprov st btw ts.
+Proof.
+  induction ts as [|t r IH]; intros st btw; [reflexivity|].
+  cbn [extract_list]. rewrite <- IH. reflexivity.
+Qed.
+
+(* ---------- capture_extra ---------- *)
+Lemma get_last_index_snoc_false {A} (f : A -> bool) l x :
+  f x = false -> CtxStack.get_last_index f (l ++ [x]) = CtxStack.get_last_index f l.
+Proof.
+  intro H. induction l as [|y r IH]; cbn [app CtxStack.get_last_index]; [rewrite H; reflexivity|].
+  rewrite IH. reflexivity.
+Qed.
+
+Lemma get_last_index_snoc_true {A} (f : A -> bool) l x :
+  f x = true -> CtxStack.get_last_index f (l ++ [x]) = Some (List.length l).
+Proof.
+  intro H. induction l as [|y r IH]; cbn [app CtxStack.get_last_index List.length]; [rewrite H; reflexivity|].
+  rewrite IH. reflexivity.
+Qed.
+
+Definition cap_inner (a : layer) (d : layer) : layer :=
+  fold_left (fun a kv => if starts_underscore (fst kv) then a else lset (fst kv) (snd kv) a) d a.
+
+Lemma cap_pass2_id (ds : list layer) : (forall d, In d ds -> has_key FORLOOP d = false) ->
+  forall e, fold_left (fun acc d => if has_key FORLOOP d then lupdate acc d else acc) ds e = e.
+Proof.
+  induction ds as [|d r IH]; intros H e; [reflexivity|]. cbn [fold_left].
+  rewrite (H d (or_introl eq_refl)). apply IH. intros d' Hd. apply H. right. exact Hd.
+Qed.
+
+Lemma capture_extra_eq ds i : CtxStack.get_last_index (has_key GEN_FILL) ds = Some i ->
+  (forall d, In d ds -> has_key FORLOOP d = false) ->
+  capture_extra ds = fold_left cap_inner (skipn i ds) [].
+Proof. intros Hi Hf. unfold capture_extra. rewrite Hi. rewrite cap_pass2_id by exact Hf. reflexivity. Qed.
+
+Lemma capture_extra_push ds i x v :
+  CtxStack.get_last_index (has_key GEN_FILL) ds = Some i ->
+  (forall d, In d ds -> has_key FORLOOP d = false) ->
+  uname x = true ->
+  capture_extra (ds ++ [[(x, v)]]) = lset x v (capture_extra ds).
+Proof.
+  intros Hi Hf Hx.
+  assert (Hg : has_key GEN_FILL [(x, v)] = false).
+  { unfold has_key, smem. cbn [slookup]. rewrite str_eqb_neq; [reflexivity|]. intro E. rewrite <- E in Hx. discriminate. }
+  assert (Hfo : has_key FORLOOP [(x, v)] = false).
+  { unfold has_key, smem. cbn [slookup]. rewrite str_eqb_neq; [reflexivity|]. intro E. rewrite <- E in Hx. discriminate. }
+  rewrite (capture_extra_eq (ds ++ [[(x, v)]]) i).
+  - rewrite (capture_extra_eq ds i Hi Hf).
+    rewrite skipn_app. pose proof (CtxStack.get_last_index_lt _ _ _ Hi) as Hlt.
+    replace (i - List.length ds)%nat with 0%nat by lia. cbn [skipn]. rewrite fold_left_app. cbn [fold_left].
+    unfold cap_inner at 1. cbn [fold_left fst snd]. rewrite (uname_not_underscore _ Hx). reflexivity.
+  - rewrite get_last_index_snoc_false by exact Hg. exact Hi.
+  - intros d Hd. apply in_app_or in Hd as [Hd|[<-|[]]]; [apply Hf; exact Hd|exact Hfo].
+Qed.
+
+Lemma cget_none_layers k ds : cget k ds = None -> forall d, In d ds -> slookup k d = None.
+Proof.
+  induction ds as [|d r IH]; intros H d' Hd; [contradiction|]. cbn [cget] in H.
+  destruct (cget k r) eqn:E; [discriminate|]. destruct Hd as [<-|Hd]; [exact H|apply IH; [reflexivity|exact Hd]].
+Qed.
+
+Lemma alookup_aset_same {V} k (v : V) l : alookup k (aset k v l) = Some v.
+Proof.
+  induction l as [|[k' v'] r IH]; cbn [aset alookup]; [rewrite N.eqb_refl; reflexivity|].
+  destruct (N.eqb k k') eqn:E; cbn [alookup]; rewrite ?N.eqb_refl; [reflexivity|]. rewrite E. exact IH.
+Qed.
+
+Lemma alookup_aset_other {V} k j (v : V) l : j <> k -> alookup j (aset k v l) = alookup j l.
+Proof.
+  intro H. induction l as [|[k' v'] r IH]; cbn [aset alookup].
+  - destruct (N.eqb j k) eqn:E; [apply N.eqb_eq in E; contradiction|reflexivity].
+  - destruct (N.eqb k k') eqn:E; cbn [alookup].
+    + apply N.eqb_eq in E. subst k'. destruct (N.eqb j k) eqn:E2; [apply N.eqb_eq in E2; contradiction|reflexivity].
+    + destruct (N.eqb j k'); [reflexivity|exact IH].
+Qed.
+
+Lemma alookup_aremove_other {V} k j (l : list (N * V)) : j <> k -> alookup j (aremove k l) = alookup j l.
+Proof.
+  intro H. induction l as [|[k' v'] r IH]; [reflexivity|]. cbn [aremove alookup].
+  destruct (N.eqb k k') eqn:E.
+  - apply N.eqb_eq in E. subst k'. destruct (N.eqb j k) eqn:E2; [apply N.eqb_eq in E2; contradiction|exact IH].
+  - cbn [alookup]. destruct (N.eqb j k'); [reflexivity|exact IH].
+Qed.
+
+(* ---------- fill discovery: M's extraction-mode render vs S's extract ---------- *)
+Record xrel (c : ctxt) (st : state) (btw loc0 : env) (n : N) (G : list str) : Prop := {
+  xr_out : out st = [];
+  xr_loc : loc st = btw ++ loc0;
+  xr_vars : vrel (dicts c) (loc st);
+  xr_incl : incl (map fst (loc st)) G;
+  xr_gen : cget GEN_FILL (dicts c) = Some (CCollect n);
+  xr_idx : exists i, CtxStack.get_last_index (has_key GEN_FILL) (dicts c) = Some i;
+  xr_for : forall d, In d (dicts c) -> has_key FORLOOP d = false;
+  xr_cap : forall x, slookup x (capture_extra (dicts c)) = option_map CVal (slookup x btw);
+  xr_disj : forall x, In x (map fst btw) -> ~ In x (map fst loc0) /\ uname x = true
+}.
+
+Definition xstep (n : N) (old fl : list (str * slotfn)) (g g' : gstate) : Prop :=
+  g_next g' = g_next g /\ g_cctx g' = g_cctx g /\ g_prov g' = g_prov g /\ alookup n (g_collect g') = Some (old ++ fl).
+
+Lemma xrel_push c st btw loc0 n G x v :
+  xrel c st btw loc0 n G -> binder_ok x = true -> ~ In x G ->
+  xrel (with_dicts c (cpush [(x, CVal v)] (dicts c))) (bind_loc x v st) ((x, v) :: btw) loc0 n (x :: G).
+Proof.
+  intros X Hb Hn. apply andb_true_iff in Hb as [_ Hu]. destruct X. destruct xr_idx0 as [i Hi].
+  constructor; cbn [dicts with_dicts bind_loc loc out].
+  - exact xr_out0.
+  - rewrite xr_loc0. reflexivity.
+  - intros y Hy. unfold cpush. rewrite cget_snoc. cbn [slookup].
+    destruct (str_eqb y x); [reflexivity|]. apply xr_vars0. exact Hy.
+  - cbn [map fst]. intros y [<-|Hy]; [left; reflexivity|right; apply xr_incl0; exact Hy].
+  - unfold cpush. rewrite cget_snoc. cbn [slookup]. rewrite str_eqb_neq; [exact xr_gen0|].
+    intro E. rewrite <- E in Hu. discriminate.
+  - exists i. unfold cpush. rewrite get_last_index_snoc_false; [exact Hi|].
+    unfold has_key, smem. cbn [slookup]. rewrite str_eqb_neq; [reflexivity|]. intro E. rewrite <- E in Hu. discriminate.
+  - intros d Hd. unfold cpush in Hd. apply in_app_or in Hd as [Hd|[<-|[]]]; [apply xr_for0; exact Hd|].
+    unfold has_key, smem. cbn [slookup]. rewrite str_eqb_neq; [reflexivity|]. intro E. rewrite <- E in Hu. discriminate.
+  - intros y. unfold cpush. pose proof (capture_extra_push (dicts c) i x (CVal v) Hi xr_for0 Hu) as Hcp.
+    match goal with |- slookup y (capture_extra ?l) = _ =>
+      replace (capture_extra l) with (lset x (CVal v) (capture_extra (dicts c))) by (symmetry; exact Hcp) end.
+    rewrite slookup_lset. cbn [slookup].
+    destruct (str_eqb y x); [reflexivity|apply xr_cap0].
+  - intros y [<-|Hy]; [|apply xr_disj0; exact Hy]. split; [|exact Hu].
+    intro Hi0. apply Hn. apply xr_incl0. rewrite xr_loc0, map_app. apply in_or_app. right. exact Hi0.
+Qed.
+
+Section ExSim.
+  Variable rec : gstate -> ctxt -> tpl -> mres R.
+  Variable ds0 : list layer.
+  Variable n : N.
+
+  Definition exP (t : tpl) : Prop :=
+    forall G st btw loc0 g c old,
+      wf_t true G t = true -> xrel c st btw loc0 n G -> vrel ds0 loc0 -> cur st = cur st ->
+      alookup n (g_collect g) = Some old ->
+      match extract [] st btw t with
+      | Ok (s, cl) => exists g' fl, mex rec g c t = MOk (s, g', c) /\ xstep n old fl g g' /\ Forall2 (frel ds0) fl cl
+      | Err k => mex rec g c t = MErr k
+      | OutOfFuel => False
+      end.
+
+  Definition exQ (ts : list tpl) : Prop :=
+    forall G st btw loc0 g c old,
+      wf_l true G ts = true -> xrel c st btw loc0 n G -> vrel ds0 loc0 -> cur st = cur st ->
+      alookup n (g_collect g) = Some old ->
+      match extract_list [] st btw ts with
+      | Ok (s, cl) => exists g' fl, mexl rec ts g c = MOk (s, g', c) /\ xstep n old fl g g' /\ Forall2 (frel ds0) fl cl
+      | Err k => mexl rec ts g c = MErr k
+      | OutOfFuel => False
+      end.
+
+  Lemma xstep_refl old g : alookup n (g_collect g) = Some old -> xstep n old [] g g.
+  Proof. intro H. repeat split; try reflexivity. rewrite app_nil_r. exact H. Qed.
+
+  Lemma ex_sim_all : (forall t, exP t) /\ (forall ts, exQ ts).
+  Proof.
+    assert (Hnil : exQ []).
+    { intros G st btw loc0 g c old _ X Hv _ Ho. cbn. exists g, []. split; [reflexivity|]. split; [apply xstep_refl; exact Ho|constructor]. }
+    assert (Hcons : forall t r, exP t -> exQ r -> exQ (t :: r)).
+    { intros t r Ht Hr G st btw loc0 g c old Hw X Hv Hc Ho. cbn [wf_l] in Hw. apply andb_true_iff in Hw as [Hw1 Hw2].
+      cbn [extract_list mexl]. specialize (Ht G st btw loc0 g c old Hw1 X Hv Hc Ho).
+      destruct (extract [] st btw t) as [[s1 cl1]|k|]; cbn [bind]; [|rewrite Ht; reflexivity|exact Ht].
+      destruct Ht as [g1 [fl1 [E1 [[Hn1 [Hc1 [Hp1 Hl1]]] F1]]]]. rewrite E1. cbn [mbind].
+      specialize (Hr G st btw loc0 g1 c (old ++ fl1) Hw2 X Hv Hc Hl1).
+      destruct (extract_list [] st btw r) as [[s2 cl2]|k|]; cbn [bind fst snd]; [|rewrite Hr; reflexivity|exact Hr].
+      destruct Hr as [g2 [fl2 [E2 [[Hn2 [Hc2 [Hp2 Hl2]]] F2]]]]. rewrite E2. cbn [mbind].
+      exists g2, (fl1 ++ fl2). split; [reflexivity|]. split.
+      - repeat split; try congruence. rewrite Hl2, app_assoc. reflexivity.
+      - apply Forall2_app; assumption. }
+    assert (HText : forall s, exP (TText s)).
+    { intros s G st btw loc0 g c old _ X Hv _ Ho. cbn. exists g, []. split; [reflexivity|]. split; [apply xstep_refl; exact Ho|constructor]. }
+    assert (HOut : forall e, exP (TOut e)).
+    { intros e G st btw loc0 g c old Hw X Hv _ Ho. cbn [wf_t] in Hw. cbn [extract mex].
+      pose proof (meval_rel_b _ _ _ (xr_out _ _ _ _ _ _ X) (xr_vars _ _ _ _ _ _ X) Hw) as Hr.
+      unfold mout. remember (meval e (dicts c)) as cv. remember (eval e st) as xv.
+      destruct Hr; (exists g, []; split; [reflexivity|split; [apply xstep_refl; exact Ho|constructor]]). }
+    assert (HIf : forall cnd a b, exQ a -> exQ b -> exP (TIf cnd a b)).
+    { intros cnd a b Ha Hb G st btw loc0 g c old Hw X Hv Hc Ho. cbn [wf_t] in Hw.
+      apply andb_true_iff in Hw as [Hw Hwb]. apply andb_true_iff in Hw as [Hwc Hwa].
+      cbn [extract mex]. rewrite !ex_list_eq.
+      rewrite (crel_truthy _ _ (meval_rel_b _ _ _ (xr_out _ _ _ _ _ _ X) (xr_vars _ _ _ _ _ _ X) Hwc)).
+      destruct (truthy (eval cnd st)); [apply (Ha G st btw loc0 g c old Hwa X Hv Hc Ho)|apply (Hb G st btw loc0 g c old Hwb X Hv Hc Ho)]. }
+    assert (HFor : forall x e body, exQ body -> exP (TFor x e body)).
+    { intros x e body _ G st btw loc0 g c old Hw. discriminate Hw. }
+    assert (HWith : forall x e body, exQ body -> exP (TWith x e body)).
+    { intros x e body Hb G st btw loc0 g c old Hw X Hv Hc Ho. cbn [wf_t] in Hw.
+      apply andb_true_iff in Hw as [Hw Hwb]. apply andb_true_iff in Hw as [Hw Hnin]. apply andb_true_iff in Hw as [Hwe Hbx].
+      apply negb_true_iff in Hnin. apply smemb_notin in Hnin.
+      cbn [extract]. rewrite ex_list_eq.
+      change (mex rec g c (TWith x e body)) with (mwith x (meval e (dicts c)) (mexl rec body) g c).
+      rewrite (meval_val_rel_b _ _ _ (xr_out _ _ _ _ _ _ X) (xr_vars _ _ _ _ _ _ X) Hwe).
+      unfold mwith.
+      pose proof (xrel_push _ _ _ _ _ _ x (to_value (eval e st)) X Hbx Hnin) as X'.
+      specialize (Hb (x :: G) (bind_loc x (to_value (eval e st)) st) ((x, to_value (eval e st)) :: btw) loc0 g
+                     (with_dicts c (cpush [(x, CVal (to_value (eval e st)))] (dicts c))) old Hwb X' Hv eq_refl Ho).
+      change (mexl rec body) with (mexl rec body) in Hb.
+      destruct (extract_list [] (bind_loc x (to_value (eval e st)) st) ((x, to_value (eval e st)) :: btw) body) as [[s cl]|k|];
+        [|rewrite Hb; reflexivity|exact Hb].
+      destruct Hb as [g' [fl [E [Hx F]]]]. rewrite E. cbn [mbind]. rewrite push_pop_id. exists g', fl. auto. }
+    assert (HSlot : forall nm d r data body, exQ body -> exP (TSlot nm d r data body)).
+    { intros nm d r data body _ G st btw loc0 g c old Hw. discriminate Hw. }
+    assert (HFill : forall nm dv df body, exQ body -> exP (TFill nm dv df body)).
+    { intros nm dv df body _ G st btw loc0 g c old Hw X Hv _ Ho. cbn [wf_t] in Hw.
+      apply andb_true_iff in Hw as [Hw Hwb]. apply andb_true_iff in Hw as [Hwn Hdf].
+      destruct df as [df|]; [discriminate|].
+      cbn [extract mex]. unfold mfill.
+      pose proof (meval_rel_b _ _ _ (xr_out _ _ _ _ _ _ X) (xr_vars _ _ _ _ _ _ X) Hwn) as Hr.
+      inversion Hr as [v E1 E2|b E1 E2]; [|reflexivity].
+      destruct v as [s|l|fs]; try reflexivity.
+      assert (Hid : negb (opt_ident_ok dv) || negb (opt_ident_ok None) = false).
+      { destruct dv as [x|]; [|reflexivity]. cbn. apply andb_true_iff in Hwb as [Hwb _]. apply andb_true_iff in Hwb as [Hwb _].
+        apply andb_true_iff in Hwb as [Hwb _]. rewrite Hwb. reflexivity. }
+      rewrite Hid.
+      assert (Hsame : match dv with Some _ | _ => false end = false) by (destruct dv; reflexivity).
+      rewrite Hsame. rewrite (xr_gen _ _ _ _ _ _ X), Ho.
+      eexists. exists [(s, {| sf_body := body; sf_dvar := dv; sf_defvar := None; sf_extra := Some (capture_extra (dicts c)) |})].
+      split; [reflexivity|]. split.
+      - repeat split; try reflexivity. cbn [g_collect set_collect]. apply alookup_aset_same.
+      - constructor; [|constructor]. split; [reflexivity|]. cbn [snd fst sf_body sf_dvar sf_defvar sf_extra].
+        repeat split; try reflexivity; try exact (xr_out _ _ _ _ _ _ X).
+        + exact (xr_cap _ _ _ _ _ _ X).
+        + exists loc0, G. split; [exact (xr_loc _ _ _ _ _ _ X)|]. split; [exact Hv|].
+          split; [destruct dv as [x|]; [apply andb_true_iff in Hwb as [_ Hwb]|]; exact Hwb|].
+          split; [rewrite <- (xr_loc _ _ _ _ _ _ X); exact (xr_incl _ _ _ _ _ _ X)|].
+          split; [|exact (xr_disj _ _ _ _ _ _ X)].
+          intros x ->. apply andb_true_iff in Hwb as [Hwb _]. apply andb_true_iff in Hwb as [Hbx Hnin].
+          apply negb_true_iff in Hnin. apply smemb_notin in Hnin. auto. }
+    assert (HComp : forall cn kw o body, exQ body -> exP (TComp cn kw o body)).
+    { intros cn kw o body _ G st btw loc0 g c old Hw X Hv _ Ho. cbn [wf_t] in Hw. apply andb_true_iff in Hw as [Hkw _].
+      cbn [extract mex]. rewrite (mkwargs_rel_b _ _ _ (xr_out _ _ _ _ _ _ X) (xr_vars _ _ _ _ _ _ X) Hkw).
+      exists g, []. split; [reflexivity|]. split; [apply xstep_refl; exact Ho|constructor]. }
+    assert (HProvide : forall k kw body, exQ body -> exP (TProvide k kw body)).
+    { intros k kw body _ G st btw loc0 g c old Hw. discriminate Hw. }
+    split.
+    - exact (tpl_ind3 exP exQ Hnil Hcons HText HOut HIf HFor HWith HSlot HFill HComp HProvide).
+    - exact (tpls_ind3 exP exQ Hnil Hcons HText HOut HIf HFor HWith HSlot HFill HComp HProvide).
+  Qed.
+End ExSim.
+
+(* ---------- resolve_fills ---------- *)
+Lemma Forall2_frel_names ds0 fm fs : Forall2 (frel ds0) fm fs -> map fst fm = map fst fs.
+Proof. induction 1 as [|a b fm fs [Hn _] _ IH]; [reflexivity|]. cbn [map]. rewrite Hn, IH. reflexivity. Qed.
+
+Lemma resolve_sim rec g c st G body :
+  out st = [] -> prov st = [] -> vrel (dicts c) (loc st) -> incl (map fst (loc st)) G -> clean (dicts c) ->
+  wf_l true G body = true ->
+  match resolve_fills st body with
+  | Ok fills => exists g' fm, m_resolve_fills rec g c body = MOk (fm, g', c) /\ g_cctx g' = g_cctx g /\
+                              (g_next g <= g_next g')%N /\ Forall2 (frel (dicts c)) fm fills
+  | Err k => m_resolve_fills rec g c body = MErr k
+  | OutOfFuel => False
+  end.
+Proof.
+  intros Ho Hp Hv Hi [Hcg Hcf] Hw. unfold resolve_fills, m_resolve_fills.
+  destruct body as [|t r]; [exists g, []; repeat split; [lia|constructor]|].
+  set (body := t :: r) in *. rewrite Hp.
+  destruct (fresh g) as [n g1] eqn:Ef. unfold fresh in Ef. inversion Ef; subst n g1. clear Ef.
+  set (g1 := {| g_next := N.succ (g_next g); g_cctx := g_cctx g; g_collect := g_collect g; g_prov := g_prov g |}).
+  set (g2 := set_collect g1 (aset (g_next g) [] (g_collect g1))).
+  set (c1 := with_dicts c (cpush [(GEN_FILL, CCollect (g_next g))] (dicts c))).
+  assert (X : xrel c1 st [] (loc st) (g_next g) G).
+  { constructor; cbn [dicts with_dicts c1]; unfold cpush.
+    - exact Ho.
+    - reflexivity.
+    - intros x Hx. rewrite cget_snoc. cbn [slookup]. rewrite str_eqb_neq; [apply Hv; exact Hx|].
+      intro E. rewrite E in Hx. discriminate.
+    - exact Hi.
+    - rewrite cget_snoc. cbn [slookup]. rewrite str_eqb_refl. reflexivity.
+    - exists (List.length (dicts c)). apply get_last_index_snoc_true. unfold has_key, smem. cbn [slookup]. rewrite str_eqb_refl. reflexivity.
+    - intros d Hd. apply in_app_or in Hd as [Hd|[<-|[]]]; [|reflexivity].
+      unfold has_key, smem. rewrite (cget_none_layers _ _ Hcf d Hd). reflexivity.
+    - intros x. rewrite (capture_extra_eq _ (List.length (dicts c))).
+      + rewrite skipn_app, skipn_all, Nat.sub_diag. reflexivity.
+      + apply get_last_index_snoc_true. unfold has_key, smem. cbn [slookup]. rewrite str_eqb_refl. reflexivity.
+      + intros d Hd. apply in_app_or in Hd as [Hd|[<-|[]]]; [|reflexivity].
+        unfold has_key, smem. rewrite (cget_none_layers _ _ Hcf d Hd). reflexivity.
+    - intros x []. }
+  pose proof (proj2 (ex_sim_all rec (dicts c) (g_next g)) body G st [] (loc st) g2 c1 [] Hw X Hv eq_refl
+                (alookup_aset_same (g_next g) [] (g_collect g1))) as Hs.
+  destruct (extract_list [] st [] body) as [[content cl]|k|]; cbn [bind]; [|rewrite Hs; reflexivity|exact Hs].
+  destruct Hs as [g3 [fl [E [[Hn3 [Hc3 [Hp3 Hl3]]] F]]]]. rewrite E. cbn [mbind].
+  unfold c1. rewrite push_pop_id. rewrite Hl3. cbn [app].
+  assert (Hnext : (g_next g <= g_next g3)%N) by (rewrite Hn3; cbn; lia).
+  assert (Hcc : g_cctx g3 = g_cctx g) by (rewrite Hc3; reflexivity).
+  destruct F as [|a b fl' cl' Hab F'].
+  - destruct (body_is_empty body).
+    + exists g3, []. repeat split; auto.
+    + eexists g3, _. split; [reflexivity|]. split; [exact Hcc|]. split; [exact Hnext|].
+      constructor; [|constructor]. split; [reflexivity|]. cbn [snd fst sf_body sf_dvar sf_defvar sf_extra].
+      repeat split; auto. exists (loc st), G. repeat split; auto; try discriminate; contradiction.
+  - pose proof (Forall2_frel_names _ _ _ (Forall2_cons _ _ Hab F')) as Hnames.
+    destruct (negb (all_space content)); [reflexivity|]. rewrite Hnames.
+    destruct (has_dup (map fst (b :: cl'))); [reflexivity|].
+    exists g3, (a :: fl'). repeat split; auto.
+Qed.
+
+(* ---------- get_context_data without inject ---------- *)
+Lemma eval_data_sim ds kw pv g cds :
+  forallb (fun xd => binder_ok (fst xd) && dexpr_ok (snd xd)) ds = true ->
+  exists data, eval_data ds kw pv = Ok data /\
+               m_eval_data ds kw g cds = MOk (map (fun kv => (fst kv, CVal (snd kv))) data) /\
+               incl (map fst data) (map fst ds).
+Proof.
+  induction ds as [|[x d] r IH]; intro H; [exists []; repeat split; intros y []|].
+  cbn [forallb fst snd] in H. apply andb_true_iff in H as [H1 H2]. apply andb_true_iff in H1 as [_ Hd].
+  destruct (IH H2) as [rest [E1 [E2 Hi]]].
+  destruct d as [k|s|key field dflt]; [| |discriminate]; cbn [eval_data m_eval_data bind mbind]; rewrite E1, E2; cbn [bind mbind].
+  - eexists. split; [reflexivity|]. split; [rewrite map_app; reflexivity|].
+    rewrite map_app. cbn [map fst]. intros y Hy. apply in_app_or in Hy as [Hy|[<-|[]]]; [right; apply Hi; exact Hy|left; reflexivity].
+  - eexists. split; [reflexivity|]. split; [rewrite map_app; reflexivity|].
+    rewrite map_app. cbn [map fst]. intros y Hy. apply in_app_or in Hy as [Hy|[<-|[]]]; [right; apply Hi; exact Hy|left; reflexivity].
+Qed.
+
+(* ---------- make_isolated_context_copy on a Context without forloop ---------- *)
+Definition l0_ok (k : str) : Prop :=
+  k <> KEY /\ starts_inj k = false /\ k <> s2n "True" /\ k <> s2n "False" /\ k <> s2n "None".
+
+Lemma uname_l0_ok x : uname x = true -> l0_ok x.
+Proof.
+  intro H. split; [intro E; subst; discriminate|]. split; [apply uname_not_inj; exact H|].
+  repeat split; intro E; subst; discriminate.
+Qed.
+
+Lemma isolated_copy_shape g c : cget FORLOOP (dicts c) = None ->
+  exists L o, make_isolated_context_copy g c =
+              ({| oid := o; dicts := [L] |}, {| g_next := N.succ (g_next g); g_cctx := g_cctx g; g_collect := g_collect g; g_prov := g_prov g |})
+              /\ forall k, l0_ok k -> slookup k L = None.
+Proof.
+  intro Hf. unfold make_isolated_context_copy, fresh, copy_forloop. rewrite Hf.
+  set (ds1 := match cget KEY (dicts c) with Some v => cset KEY v [builtins] | None => [builtins] end).
+  assert (H1 : exists L, ds1 = [L] /\ forall k, l0_ok k -> slookup k L = None).
+  { assert (Hb : forall k, l0_ok k -> slookup k builtins = None).
+    { intros k [_ [_ [H1 [H2 H3]]]]. unfold builtins. cbn [slookup]. rewrite !str_eqb_neq by assumption. reflexivity. }
+    unfold ds1. destruct (cget KEY (dicts c)) as [v|]; [|exists builtins; split; [reflexivity|exact Hb]].
+    exists (lset KEY v builtins). split; [reflexivity|]. intros k Hk. rewrite slookup_lset.
+    rewrite str_eqb_neq by apply Hk. apply Hb. exact Hk. }
+  clearbody ds1. revert ds1 H1. generalize (flatten (dicts c)) as fl.
+  induction fl as [|[k' v'] r IH]; intros ds1 [L [-> HL]]; cbn [fold_left fst snd].
+  - exists L, (g_next g). split; [reflexivity|exact HL].
+  - apply IH. destruct (starts_inj k') eqn:E; [|exists L; auto].
+    destruct (cget k' (dicts c)) as [v|]; [|exists L; auto].
+    exists (lset k' v L). split; [reflexivity|]. intros k Hk. rewrite slookup_lset.
+    rewrite str_eqb_neq; [apply HL; exact Hk|]. intro E2. subst k'. destruct Hk as [_ [Hk _]]. congruence.
+Qed.
+
+(* ---------- helpers for the main simulation ---------- *)
+Lemma slookup_frel ds0 fm fs : Forall2 (frel ds0) fm fs -> forall k,
+  match slookup k fm, slookup k fs with
+  | Some sf, Some cl => frel ds0 (k, sf) (k, cl)
+  | None, None => True
+  | _, _ => False
+  end.
+Proof.
+  induction 1 as [|[n sf] [n' cl] fm fs [Hn Hr] _ IH]; intro k; [exact I|].
+  cbn [fst] in Hn. subst n'. cbn [slookup]. destruct (str_eqb k n) eqn:E; [|apply IH].
+  apply str_eqb_eq in E. subst k. split; [reflexivity|exact Hr].
+Qed.
+
+Lemma smem_frel ds0 fm fs k : Forall2 (frel ds0) fm fs -> smem k fm = smem k fs.
+Proof.
+  intro F. pose proof (slookup_frel _ _ _ F k) as H. unfold smem.
+  destruct (slookup k fm), (slookup k fs); try reflexivity; contradiction.
+Qed.
+
+Lemma srel_same_lookups g c st G w c' :
+  (forall k, relevant k -> cget k (dicts c') = cget k (dicts c)) -> srel g c st G w -> srel g c' st G w.
+Proof.
+  intros Hk [H1 [H2 [H3 [H4 [[H5 H5'] H6]]]]].
+  split; [exact H1|]. split; [exact H2|]. split.
+  { intros x Hx. rewrite Hk by (left; exact Hx). apply H3. exact Hx. }
+  split; [exact H4|]. split.
+  { split; rewrite Hk; try assumption; unfold relevant; auto. }
+  destruct w as [| |rid dl]; [exact I| |].
+  - destruct H6 as [Ha [Hb Hc]]. rewrite !Hk by (unfold relevant; auto). auto.
+  - destruct H6 as [cn [fills [Hc [Hi1 [Hi2 Hi3]]]]]. exists cn, fills. split; [exact Hc|].
+    split; [rewrite Hk by (unfold relevant; auto); exact Hi1|]. split; [rewrite Hk by (unfold relevant; auto); exact Hi2|exact Hi3].
+Qed.
+
+Lemma relevant_neq_uname k x : relevant k -> binder_ok x = true -> ~ (uname k = true) -> k <> x.
+Proof. intros _ Hb Hn E. subst. apply andb_true_iff in Hb as [_ Hb]. contradiction. Qed.
+
+Lemma srel_push g c st G w x v :
+  srel g c st G w -> binder_ok x = true -> ~ In x G ->
+  srel g (with_dicts c (cpush [(x, CVal v)] (dicts c))) (bind_loc x v st) (x :: G) w.
+Proof.
+  intros [H1 [H2 [H3 [H4 [[H5 H5'] H6]]]]] Hb Hn. pose proof Hb as Hb'. apply andb_true_iff in Hb' as [_ Hu].
+  assert (Hother : forall k, uname k = false -> cget k (cpush [(x, CVal v)] (dicts c)) = cget k (dicts c)).
+  { intros k Hk. unfold cpush. rewrite cget_snoc. cbn [slookup]. rewrite str_eqb_neq; [reflexivity|].
+    intro E. subst. congruence. }
+  split; [exact H1|]. split; [exact H2|]. cbn [dicts with_dicts bind_loc loc cur]. split.
+  { intros y Hy. unfold cpush. rewrite cget_snoc. cbn [slookup]. destruct (str_eqb y x); [reflexivity|apply H3; exact Hy]. }
+  split. { cbn [map fst]. intros y [<-|Hy]; [left; reflexivity|right; apply H4; exact Hy]. }
+  split. { split; rewrite Hother; auto. }
+  destruct w as [| |rid dl]; [exact I| |].
+  - destruct H6 as [Ha [Hb1 Hc]]. rewrite !Hother by reflexivity. auto.
+  - destruct H6 as [cn [fills [Hc [Hi1 [Hi2 Hi3]]]]]. exists cn, fills. split; [exact Hc|].
+    split; [rewrite Hother by reflexivity; exact Hi1|]. split; [rewrite Hother by reflexivity; exact Hi2|exact Hi3].
+Qed.
+
+Lemma slot_default_check_ok rid ci name isd g dl :
+  alookup rid (g_cctx g) = Some ci -> (rid < g_next g)%N -> dflt_ok dl ci ->
+  (forall a b, In a dl -> In b dl -> a = b) -> (isd = true -> In name dl) ->
+  exists g1, slot_default_check rid ci name isd g = MOk g1 /\ gext (WInst rid dl) g g1.
+Proof.
+  intros Ha Hlt Hd Hs Hin. unfold slot_default_check. destruct isd; [|exists g; split; [reflexivity|apply gext_refl]].
+  specialize (Hin eq_refl). unfold dflt_ok in Hd. destruct (ci_default ci) as [d|] eqn:Ed.
+  - rewrite (Hd name Hin), str_eqb_refl. cbn [negb]. exists g. split; [reflexivity|apply gext_refl].
+  - eexists. split; [reflexivity|]. split; [cbn; lia|]. intros j Hj. cbn [g_cctx set_cctx].
+    destruct (N.eqb j rid) eqn:E.
+    + apply N.eqb_eq in E. subst j. rewrite Ha, alookup_aset_same. cbn. eexists. split; [reflexivity|].
+      cbn [ci_fills ci_outer]. repeat split. intros _. unfold dflt_ok. cbn [ci_default]. intros n Hn. apply Hs; assumption.
+    + apply alookup_aset_other. intro E2. subst. rewrite N.eqb_refl in E. discriminate.
+Qed.
+
+(* the layers a fill body is rendered on (render_func) *)
+Definition rf_dicts (f : slotfn) (sdata : value) (sref : cval) (ds : list layer) : list layer :=
+  let ds1 := match sf_dvar f with Some x => cset x (CVal sdata) ds | None => ds end in
+  let ds2 := match sf_defvar f with Some x => cset x sref ds1 | None => ds1 end in
+  let i := (match CtxStack.get_last_index (has_key KEY) ds2 with Some i => Z.of_nat i | None => 0%Z end - 1)%Z in
+  CtxStack.py_insertZ i (match sf_extra f with Some e => e | None => [] end) ds2.
+
+(* running render_func on Context c0 = (c with `extra` pushed), given what the body does on its layers *)
+Lemma m_render_func_run mrec f sdata sref g c extra :
+  let c0 := with_dicts c (cpush extra (dicts c)) in
+  let cb := with_dicts c0 (rf_dicts f sdata sref (dicts c0)) in
+  match mrl mrec g cb (sf_body f) with
+  | MOk (a, g', c') => c' = cb ->
+      exists c2, m_render_func mrec f sdata sref g c0 = MOk (a, g', c2) /\ with_dicts c2 (cpop (dicts c2)) = c
+  | MErr k => m_render_func mrec f sdata sref g c0 = MErr k
+  | MFuel => m_render_func mrec f sdata sref g c0 = MFuel
+  | MUnsup u => m_render_func mrec f sdata sref g c0 = MUnsup u
+  end.
+Proof.
+  cbn zeta. unfold m_render_func, rf_dicts. cbn [dicts with_dicts oid].
+  set (ds1 := match sf_dvar f with Some x => cset x (CVal sdata) (cpush extra (dicts c)) | None => cpush extra (dicts c) end).
+  set (ds2 := match sf_defvar f with Some x => cset x sref ds1 | None => ds1 end).
+  assert (E1 : exists top, ds1 = dicts c ++ [top]).
+  { unfold ds1, cpush. destruct (sf_dvar f); [rewrite cset_snoc|]; eauto. }
+  destruct E1 as [top1 E1].
+  assert (E2 : exists top, ds2 = dicts c ++ [top]).
+  { unfold ds2. rewrite E1. destruct (sf_defvar f); [rewrite cset_snoc|]; eauto. }
+  destruct E2 as [top E2].
+  destruct (mrl mrec g _ (sf_body f)) as [[[a g'] c']| | |]; cbn [mbind]; try reflexivity.
+  intros ->. cbn [dicts with_dicts]. rewrite E2.
+  destruct (fill_frame_restores_gen (has_key KEY) (dicts c) top (match sf_extra f with Some e => e | None => [] end))
+    as [ds' [Hp Hr]]. cbn zeta in Hp. rewrite Hp. eexists. split; [reflexivity|].
+  cbn [dicts with_dicts oid]. unfold cpop. rewrite Hr. destruct c; reflexivity.
+Qed.
+
+Lemma rf_dicts_unfilled body sdata sref ds extra k :
+  slookup k extra = None ->
+  cget k (rf_dicts (unfilled_fn body) sdata sref (cpush extra ds)) = cget k ds.
+Proof.
+  intro H. unfold rf_dicts, unfilled_fn. cbn [sf_dvar sf_defvar sf_extra].
+  rewrite cget_insert by reflexivity. unfold cpush. rewrite cget_snoc, H. reflexivity.
+Qed.
+
+Lemma slookup_none_btw (btw : env) k :
+  (forall x, In x (map fst btw) -> uname x = true) -> uname k = false -> slookup k btw = None.
+Proof. intros H Hk. apply slookup_notin. intro Hi. apply H in Hi. congruence. Qed.
+
+(* the Context a fill body sees in isolated mode vs the lexical scope of S *)
+Lemma fill_ctx_vrel ds0 sf btw loc0 Gb dv sdata sref extra :
+  sf_dvar sf = dv -> sf_defvar sf = None ->
+  (forall x, slookup x (match sf_extra sf with Some e => e | None => [] end) = option_map CVal (slookup x btw)) ->
+  vrel ds0 loc0 -> clean ds0 ->
+  incl (map fst (btw ++ loc0)) Gb ->
+  (forall x, dv = Some x -> ~ In x Gb /\ binder_ok x = true) ->
+  (forall x, In x (map fst btw) -> ~ In x (map fst loc0) /\ uname x = true) ->
+  (forall k, relevant k -> slookup k extra = None) ->
+  vrel (rf_dicts sf sdata sref (cpush extra ds0)) ((match dv with Some x => [(x, sdata)] | None => [] end) ++ btw ++ btw ++ loc0) /\
+  clean (rf_dicts sf sdata sref (cpush extra ds0)).
+Proof.
+  intros Hdv Hdf Hfe Hv [Hcg Hcf] Hincl Hd Hdisj Hex.
+  unfold rf_dicts. cbn zeta. rewrite Hdv, Hdf.
+  set (fe := match sf_extra sf with Some e => e | None => [] end) in *.
+  set (ds2 := match dv with Some x => cset x (CVal sdata) (cpush extra ds0) | None => cpush extra ds0 end).
+  set (i := (match CtxStack.get_last_index (has_key KEY) ds2 with Some i => Z.of_nat i | None => 0%Z end - 1)%Z).
+  assert (Hds2 : forall k, relevant k ->
+            cget k ds2 = match dv with Some d => if str_eqb k d then Some (CVal sdata) else cget k ds0 | None => cget k ds0 end).
+  { intros k Hk. unfold ds2, cpush. destruct dv as [d|].
+    - rewrite cget_cset. destruct (str_eqb k d); [reflexivity|]. rewrite cget_snoc, (Hex k Hk). reflexivity.
+    - rewrite cget_snoc, (Hex k Hk). reflexivity. }
+  assert (Hbu : forall x, In x (map fst btw) -> uname x = true) by (intros x Hx; apply Hdisj; exact Hx).
+  split.
+  - intros x Hx. destruct (slookup x btw) as [v|] eqn:Eb.
+    + (* bound between the tag and the fill: found in the inserted layer, nowhere else *)
+      pose proof (slookup_in _ _ _ Eb) as Hin.
+      assert (Hn2 : cget x ds2 = None).
+      { rewrite Hds2 by (left; exact Hx). destruct (Hdisj x Hin) as [Hnl _].
+        assert (E0 : cget x ds0 = None) by (rewrite (Hv x Hx), (slookup_notin _ _ Hnl); reflexivity).
+        destruct dv as [d|]; [|exact E0]. rewrite str_eqb_neq; [exact E0|].
+        intro E. subst d. destruct (Hd x eq_refl) as [Hng _]. apply Hng, Hincl. rewrite map_app. apply in_or_app. left. exact Hin. }
+      rewrite (cget_insert_in x i fe ds2 (CVal v)); [|rewrite Hfe, Eb; reflexivity|exact Hn2].
+      rewrite slookup_app.
+      assert (Ea : slookup x (match dv with Some x0 => [(x0, sdata)] | None => [] end) = None).
+      { destruct dv as [d|]; [|reflexivity]. cbn [slookup]. rewrite str_eqb_neq; [reflexivity|].
+        intro E. subst d. destruct (Hd x eq_refl) as [Hng _]. apply Hng, Hincl. rewrite map_app. apply in_or_app. left. exact Hin. }
+      rewrite Ea, slookup_app, Eb. reflexivity.
+    + rewrite cget_insert by (rewrite Hfe, Eb; reflexivity).
+      rewrite Hds2 by (left; exact Hx). rewrite !slookup_app, Eb.
+      destruct dv as [d|]; cbn [slookup]; [destruct (str_eqb x d); [reflexivity|]|]; apply Hv; exact Hx.
+  - assert (Hk : forall k, relevant k -> uname k = false -> cget k ds0 = None -> cget k (CtxStack.py_insertZ i fe ds2) = None).
+    { intros k Hr Hu H0. rewrite cget_insert by (rewrite Hfe, (slookup_none_btw btw k Hbu Hu); reflexivity).
+      rewrite Hds2 by exact Hr. destruct dv as [d|]; [|exact H0]. rewrite str_eqb_neq; [exact H0|].
+      intro E. subst d. destruct (Hd k eq_refl) as [_ Hb]. apply andb_true_iff in Hb as [_ Hb]. congruence. }
+    split; apply Hk; unfold relevant; auto.
+Qed.
+
+(* ---------- the simulation ---------- *)
+Lemma all_same_prop l : all_same l = true -> forall a b, In a l -> In b l -> a = b.
+Proof.
+  destruct l as [|n r]; [intros _ a b []|]. cbn [all_same]. intro H.
+  assert (Hn : forall a, In a (n :: r) -> a = n).
+  { intros a [<-|Ha]; [reflexivity|]. rewrite forallb_forall in H. specialize (H a Ha). apply str_eqb_eq in H. congruence. }
+  intros a b Ha Hb. rewrite (Hn a Ha), (Hn b Hb). reflexivity.
+Qed.
+
+Lemma map_escape_names (fm : list (str * slotfn)) (fs : list (str * closure)) :
+  map fst fm = map fst fs -> map (fun kf => escape_name (fst kf)) fm = map (fun kc => escape_name (fst kc)) fs.
+Proof.
+  revert fs. induction fm as [|a r IH]; intros [|b fs] H; try discriminate.
+  - reflexivity.
+  - cbn [map] in *. inversion H as [[H1 H2]]. rewrite H1, (IH _ H2). reflexivity.
+Qed.
+
+Section Sim.
+  Variable lib : list (str * cdef).
+  Hypothesis Hlib : forall cn cd, slookup cn lib = Some cd -> wf_cdef cd = true.
+
+  Definition simP (rec : state -> tpl -> res str) (mrec : gstate -> ctxt -> tpl -> mres R) : Prop :=
+    forall t w G st g c, srel g c st G w -> wf_t (is_body w) G t = true ->
+      (forall rid dl, w = WInst rid dl -> incl (slot_defaults_t t) dl /\ (forall a b, In a dl -> In b dl -> a = b)) ->
+      match rec st t with
+      | Ok a => exists g', mrec g c t = MOk (a, g', c) /\ gext w g g'
+      | Err k => mrec g c t = MErr k
+      | OutOfFuel => mrec g c t = MFuel
+      end.
+
+  Section Step.
+    Variable rec : state -> tpl -> res str.
+    Variable mrec : gstate -> ctxt -> tpl -> mres R.
+    Hypothesis IH : simP rec mrec.
+
+    Lemma sim_list : forall ts w G st g c, srel g c st G w -> wf_l (is_body w) G ts = true ->
+      (forall rid dl, w = WInst rid dl -> incl (slot_defaults ts) dl /\ (forall a b, In a dl -> In b dl -> a = b)) ->
+      match rl rec st ts with
+      | Ok a => exists g', mrl mrec g c ts = MOk (a, g', c) /\ gext w g g'
+      | Err k => mrl mrec g c ts = MErr k
+      | OutOfFuel => mrl mrec g c ts = MFuel
+      end.
+    Proof.
+      induction ts as [|t r IHr]; intros w G st g c Hs Hw Hd; cbn [rl mrl].
+      - exists g. split; [reflexivity|apply gext_refl].
+      - cbn [wf_l] in Hw. apply andb_true_iff in Hw as [Hw1 Hw2].
+        assert (Hd1 : forall rid dl, w = WInst rid dl -> incl (slot_defaults_t t) dl /\ (forall a b, In a dl -> In b dl -> a = b)).
+        { intros rid dl E. destruct (Hd rid dl E) as [Hi Ha]. split; [|exact Ha]. intros x Hx. apply Hi. cbn [slot_defaults]. apply in_or_app. left. exact Hx. }
+        assert (Hd2 : forall rid dl, w = WInst rid dl -> incl (slot_defaults r) dl /\ (forall a b, In a dl -> In b dl -> a = b)).
+        { intros rid dl E. destruct (Hd rid dl E) as [Hi Ha]. split; [|exact Ha]. intros x Hx. apply Hi. cbn [slot_defaults]. apply in_or_app. right. exact Hx. }
+        pose proof (IH t w G st g c Hs Hw1 Hd1) as H1.
+        destruct (rec st t) as [a| |]; cbn [bind]; [|rewrite H1; reflexivity|rewrite H1; reflexivity].
+        destruct H1 as [g1 [E1 X1]]. rewrite E1. cbn [mbind].
+        pose proof (IHr w G st g1 c (srel_gext _ _ _ _ _ _ Hs X1) Hw2 Hd2) as H2.
+        destruct (rl rec st r) as [b| |]; cbn [bind]; [|rewrite H2; reflexivity|rewrite H2; reflexivity].
+        destruct H2 as [g2 [E2 X2]]. rewrite E2. cbn [mbind]. exists g2. split; [reflexivity|eapply gext_trans; eassumption].
+    Qed.
+
+    Lemma sim_step : simP (render_step Isolated lib rec) (mstep Isolated lib mrec).
+    Proof.
+      intros t w G st g c Hs Hw Hd.
+      destruct t as [s|e|cnd x y|x e body|x e body|name isd isr data body|nm dv defv body|cname kw only body|key kw body];
+        cbn [render_step mstep].
+      - (* text *) exists g. split; [reflexivity|apply gext_refl].
+      - (* {{ e }} *)
+        cbn [wf_t] in Hw. pose proof (meval_rel _ _ _ _ _ _ Hs Hw) as Hr. unfold mout.
+        remember (meval e (dicts c)) as cv. remember (eval e st) as xv.
+        destruct Hr; (exists g; split; [reflexivity|apply gext_refl]).
+      - (* if *)
+        cbn [wf_t] in Hw. apply andb_true_iff in Hw as [Hw Hwy]. apply andb_true_iff in Hw as [Hwc Hwx].
+        rewrite (crel_truthy _ _ (meval_rel _ _ _ _ _ _ Hs Hwc)).
+        destruct (truthy (eval cnd st)).
+        + apply (sim_list x w G st g c Hs Hwx). intros rid dl E. destruct (Hd rid dl E) as [Hi Ha]. split; [|exact Ha].
+          intros z Hz. apply Hi. cbn [slot_defaults_t]. apply in_or_app. left. exact Hz.
+        + apply (sim_list y w G st g c Hs Hwy). intros rid dl E. destruct (Hd rid dl E) as [Hi Ha]. split; [|exact Ha].
+          intros z Hz. apply Hi. cbn [slot_defaults_t]. apply in_or_app. right. exact Hz.
+      - discriminate Hw.
+      - (* with *)
+        cbn [wf_t] in Hw.
+        apply andb_true_iff in Hw as [Hw Hwb]. apply andb_true_iff in Hw as [Hw Hnin]. apply andb_true_iff in Hw as [Hwe Hbx].
+        apply negb_true_iff in Hnin. apply smemb_notin in Hnin.
+        rewrite (meval_val_rel _ _ _ _ _ _ Hs Hwe). unfold mwith.
+        pose proof (srel_push _ _ _ _ _ x (to_value (eval e st)) Hs Hbx Hnin) as Hs'.
+        assert (Hd' : forall rid dl, w = WInst rid dl -> incl (slot_defaults body) dl /\ (forall a b, In a dl -> In b dl -> a = b)).
+        { intros rid dl E. exact (Hd rid dl E). }
+        pose proof (sim_list body w (x :: G) _ g _ Hs' Hwb Hd') as H.
+        destruct (rl rec (bind_loc x (to_value (eval e st)) st) body) as [a| |]; [|rewrite H; reflexivity|rewrite H; reflexivity].
+        destruct H as [g' [E X]]. rewrite E. cbn [mbind]. rewrite push_pop_id. exists g'. auto.
+      - (* slot *)
+        cbn [wf_t] in Hw. apply andb_true_iff in Hw as [Hw Hwb]. apply andb_true_iff in Hw as [Hnb Hkw].
+        apply negb_true_iff in Hnb. unfold mslot.
+        assert (Hkw' : kw_ok (is_body w) data = true) by (rewrite Hnb; exact Hkw).
+        rewrite (mkwargs_rel _ _ _ _ _ _ Hs Hkw').
+        destruct Hs as [Ho [Hp [Hv [Hincl [[Hcg Hcf] Hwho]]]]].
+        unfold is_extracting. rewrite Hcg.
+        destruct w as [| |rid dl]; [discriminate Hnb| |].
+        + destruct Hwho as [Hc [Hk _]]. rewrite Hc, Hk. reflexivity.
+        + destruct Hwho as [cn [fills [Hc Hirel]]]. rewrite Hc.
+          pose proof Hirel as [Hk [Hcv [Hlt [ci [O [Ha [HO [[HOg HOf] [HF Hdf]]]]]]]]].
+          rewrite Hk, Ha.
+          destruct (Hd rid dl eq_refl) as [Hdin Hsame].
+          destruct (slot_default_check_ok rid ci name isd g dl Ha Hlt Hdf Hsame) as [g1 [Eg1 Xg1]].
+          { intros ->. apply Hdin. cbn [slot_defaults_t]. left. reflexivity. }
+          rewrite Eg1. cbn [mbind].
+          unfold double_filled. rewrite (smem_frel _ _ _ name HF), (smem_frel _ _ _ default_key HF).
+          destruct (isd && negb (str_eqb name default_key) && smem name fills && smem default_key fills); [reflexivity|].
+          unfold fill_name_of, slot_fills_of. cbn [is_django andb].
+          set (fname := if isd && smem default_key fills then default_key else name).
+          pose proof (slookup_frel _ _ _ HF fname) as Hf.
+          assert (Hs1 : srel g1 c st G (WInst rid dl)).
+          { apply (srel_gext g g1); [|exact Xg1]. split; [exact Ho|]. split; [exact Hp|]. split; [exact Hv|]. split; [exact Hincl|].
+            split; [split; assumption|]. exists cn, fills. split; [exact Hc|exact Hirel]. }
+          destruct (slot_extra_isolated_ok ci (match slookup fname (ci_fills ci) with Some _ => true | None => false end) (dicts c)) as [extra Eex].
+          assert (Hexk : forall k, relevant k -> slookup k extra = None).
+          { intros k Hr. eapply slot_extra_isolated; [exact Eex|apply relevant_not_inj; exact Hr]. }
+          destruct (slookup fname (ci_fills ci)) as [sf|] eqn:Em, (slookup fname fills) as [cl|] eqn:Es; try contradiction.
+          * (* filled: the fill body on the instance's outer Context *)
+            destruct cl as [fbody btw cloc cout fdv fdefv owner cprov].
+            destruct Hf as [_ [Hb [Hdv [Hdfv [-> [-> [-> [Hfe [loc0 [Gb [-> [Hv0 [Hwfb [Hinb [Hdvb Hdisj]]]]]]]]]]]]]]].
+            cbn [clo_defvar clo_dvar clo_body bind fst snd sf_body] in *.
+            assert (Hm : match Some sf, isr with None, true => @MErr R ETemplateSyntax | _, _ =>
+                     mbind (slot_extra Isolated ci true (dicts c)) (fun extra0 =>
+                       if negb true || is_django Isolated then
+                         let sref := CSlotRef body (oid c) (oid c) (dicts c) (slot_rvars (dicts c)) in
+                         mbind (m_render_func mrec sf (VRec (eval_kwargs data st)) sref g1 (with_dicts c (cpush extra0 (dicts c))))
+                           (fun '(a, g3, c2) => MOk (a, g3, with_dicts c2 (cpop (dicts c2))))
+                       else
+                         let '(used, g2) := match ci_outer ci with
+                                            | Some o => (o, g1)
+                                            | None => let '(o, g') := fresh g1 in ({| oid := o; dicts := [builtins] |}, g')
+                                            end in
+                         let sref := CSlotRef body (oid c) (oid used) (dicts c) (slot_rvars (dicts c)) in
+                         mbind (m_render_func mrec sf (VRec (eval_kwargs data st)) sref g2 (with_dicts used (cpush extra0 (dicts used))))
+                           (fun '(a, g3, _) => MOk (a, g3, c))) end =
+                   mbind (m_render_func mrec sf (VRec (eval_kwargs data st)) (CSlotRef body (oid c) (oid O) (dicts c) (slot_rvars (dicts c)))
+                            g1 (with_dicts O (cpush extra (dicts O)))) (fun '(a, g3, _) => MOk (a, g3, c))).
+            { rewrite Eex, HO. destruct isr; reflexivity. }
+            cbn [is_django] in Hm. cbn [is_django]. rewrite Hm. clear Hm. cbn [app].
+            set (sdata := VRec (eval_kwargs data st)).
+            set (sref := CSlotRef body (oid c) (oid O) (dicts c) (slot_rvars (dicts c))).
+            destruct (fill_ctx_vrel (dicts O) sf btw loc0 Gb fdv sdata sref extra Hdv Hdfv Hfe Hv0 (conj HOg HOf) Hinb Hdvb Hdisj Hexk)
+              as [Hvb Hcb].
+            set (c0 := with_dicts O (cpush extra (dicts O))).
+            set (cb := with_dicts c0 (rf_dicts sf sdata sref (dicts c0))).
+            set (stb := fill_state true st (match fdv with Some x0 => [(x0, sdata)] | None => [] end)
+                          (Clo fbody btw (btw ++ loc0) [] fdv None owner [])).
+            assert (Hsb : srel g1 cb stb (match fdv with Some x0 => x0 :: Gb | None => Gb end) WBody).
+            { unfold stb. cbn [fill_state]. split; [reflexivity|]. split; [cbn; rewrite Hp; reflexivity|].
+              cbn [loc]. split; [exact Hvb|]. split.
+              - rewrite !map_app. intros z Hz. apply in_app_or in Hz as [Hz|Hz].
+                + destruct fdv as [d|]; [|destruct Hz]. destruct Hz as [<-|[]]. left. reflexivity.
+                + assert (Hz' : In z Gb).
+                  { apply Hinb. rewrite map_app. apply in_app_or in Hz as [Hz|Hz]; [apply in_or_app; left; exact Hz|].
+                    rewrite <- map_app in Hz. rewrite <- map_app. exact Hz. }
+                  destruct fdv; [right|]; exact Hz'.
+              - split; [exact Hcb|exact I]. }
+            assert (Hwb' : wf_l (is_body WBody) (match fdv with Some x0 => x0 :: Gb | None => Gb end) (sf_body sf) = true)
+              by (rewrite Hb; exact Hwfb).
+            pose proof (sim_list (sf_body sf) WBody _ stb g1 cb Hsb Hwb' ltac:(intros; discriminate)) as Hbody.
+            pose proof (m_render_func_run mrec sf sdata sref g1 O extra) as Hrun. cbn zeta in Hrun. fold c0 cb in Hrun.
+            rewrite Hb in Hbody. revert Hbody. unfold stb.
+            destruct (rl rec _ fbody) as [a| |]; intro Hbody.
+            -- destruct Hbody as [g3 [E3 X3]]. rewrite Hb, E3 in Hrun. destruct (Hrun eq_refl) as [c2 [E2 _]].
+               fold c0. rewrite E2. cbn [mbind]. exists g3. split; [reflexivity|].
+               eapply gext_trans; [exact Xg1|]. apply gexact_gext. exact X3.
+            -- rewrite Hb, Hbody in Hrun. fold c0. rewrite Hrun. reflexivity.
+            -- rewrite Hb, Hbody in Hrun. fold c0. rewrite Hrun. reflexivity.
+          * (* unfilled: its own default content, same instance, same scope *)
+            cbn [is_django] in *. destruct isr; [reflexivity|].
+            rewrite Eex. cbn [mbind negb orb].
+            set (sdata := VRec (eval_kwargs data st)).
+            set (sref := CSlotRef body (oid c) (oid c) (dicts c) (slot_rvars (dicts c))).
+            set (c0 := with_dicts c (cpush extra (dicts c))).
+            set (cb := with_dicts c0 (rf_dicts (unfilled_fn body) sdata sref (dicts c0))).
+            assert (Hsb : srel g1 cb st G (WInst rid dl)).
+            { apply (srel_same_lookups g1 c); [|exact Hs1]. intros k Hr. unfold cb, c0. cbn [dicts with_dicts].
+              apply rf_dicts_unfilled. apply Hexk. exact Hr. }
+            assert (Hd' : forall rid0 dl0, WInst rid dl = WInst rid0 dl0 ->
+                      incl (slot_defaults body) dl0 /\ (forall a b, In a dl0 -> In b dl0 -> a = b)).
+            { intros rid0 dl0 E. inversion E; subst. split; [|exact Hsame]. intros z Hz. apply Hdin. cbn [slot_defaults_t].
+              apply in_or_app. right. exact Hz. }
+            pose proof (sim_list body (WInst rid dl) G st g1 cb Hsb Hwb Hd') as Hbody.
+            pose proof (m_render_func_run mrec (unfilled_fn body) sdata sref g1 c extra) as Hrun. cbn zeta in Hrun.
+            fold c0 cb in Hrun. cbn [sf_body unfilled_fn] in Hrun.
+            destruct (rl rec st body) as [a| |].
+            -- destruct Hbody as [g3 [E3 X3]]. rewrite E3 in Hrun. destruct (Hrun eq_refl) as [c2 [E2 Hc2]].
+               fold c0. rewrite E2. cbn [mbind]. rewrite Hc2. exists g3. split; [reflexivity|].
+               eapply gext_trans; eassumption.
+            -- rewrite Hbody in Hrun. fold c0. rewrite Hrun. reflexivity.
+            -- rewrite Hbody in Hrun. fold c0. rewrite Hrun. reflexivity.
+      - (* fill outside a component body *)
+        destruct Hs as [_ [_ [_ [_ [[Hcg _] _]]]]]. unfold is_extracting. rewrite Hcg. reflexivity.
+      - (* component *)
+        cbn [wf_t] in Hw. apply andb_true_iff in Hw as [Hkw Hwb]. unfold mcomp.
+        rewrite (mkwargs_rel _ _ _ _ _ _ Hs Hkw).
+        pose proof Hs as [Ho [Hp [Hv [Hincl [[Hcg Hcf] Hwho]]]]].
+        unfold is_extracting. rewrite Hcg.
+        destruct (slookup cname lib) as [cd|] eqn:El; [|reflexivity].
+        pose proof (Hlib _ _ El) as Hcd. unfold wf_cdef in Hcd.
+        apply andb_true_iff in Hcd as [Hcd Hsame]. apply andb_true_iff in Hcd as [Hdata Hwt].
+        pose proof (resolve_sim mrec g c st G body Ho Hp Hv Hincl (conj Hcg Hcf) Hwb) as Hres.
+        destruct (resolve_fills st body) as [fills| |]; cbn [bind]; [|rewrite Hres; reflexivity|contradiction].
+        destruct Hres as [g1 [fm [Eres [Hcc1 [Hn1 HF]]]]]. rewrite Eres. cbn [mbind].
+        cbn [is_django negb]. rewrite orb_true_r.
+        destruct (isolated_copy_shape g1 c Hcf) as [L [o [Ecopy HL]]]. rewrite Ecopy.
+        unfold fresh, snapshot. cbn [g_next g_cctx g_collect g_prov fresh].
+        destruct (eval_data_sim (c_data cd) (eval_kwargs kw st) (prov st)
+                    {| g_next := N.succ (N.succ (N.succ (g_next g1))); g_cctx := g_cctx g1; g_collect := g_collect g1; g_prov := g_prov g1 |}
+                    [L] Hdata) as [data [Ed [Em Hdincl]]].
+        rewrite Ed. cbn [bind]. cbn [dicts oid with_dicts]. rewrite Em. cbn [mbind].
+        cbn [g_next g_cctx g_collect g_prov set_cctx].
+        set (rid := N.succ (g_next g1)).
+        set (dl := slot_defaults (c_tpl cd)).
+        set (dataM := map (fun kv => (fst kv, CVal (snd kv))) data).
+        set (keyl := [(KEY, CId rid); (CVARS, CVars (map (fun kf => escape_name (fst kf)) fm))]).
+        set (snap := {| oid := N.succ (N.succ (N.succ (g_next g1))); dicts := cpush keyl (cpush dataM [L]) |}).
+        set (osnap := {| oid := N.succ (N.succ (g_next g1)); dicts := dicts c |}).
+        set (entry := {| ci_name := cname; ci_fills := fm; ci_default := None; ci_outer := Some osnap |}).
+        set (g6 := {| g_next := N.succ (N.succ (N.succ (N.succ (g_next g1)))); g_cctx := aset rid entry (g_cctx g1);
+                      g_collect := g_collect g1; g_prov := g_prov g1 |}).
+        set (st' := comp_state st cname fills data (is_isolated Isolated only)).
+        assert (Hiso : is_isolated Isolated only = true) by (unfold is_isolated; apply orb_true_r).
+        assert (Hs' : srel g6 snap st' (map fst (c_data cd)) (WInst rid dl)).
+        { unfold st', comp_state. rewrite Hiso. split; [reflexivity|]. split; [exact Hp|]. cbn [loc cur dicts snap].
+          assert (Hlook : forall k, l0_ok k -> k <> KEY -> k <> CVARS ->
+                    cget k (cpush keyl (cpush dataM [L])) = slookup k dataM).
+          { intros k Hk H1 H2. unfold cpush. rewrite cget_snoc. unfold keyl. cbn [slookup].
+            rewrite (str_eqb_neq _ _ H1), (str_eqb_neq _ _ H2). rewrite cget_snoc. cbn [cget]. rewrite (HL k Hk).
+            destruct (slookup k dataM); reflexivity. }
+          assert (Hdk : forall k, uname k = false -> slookup k dataM = None).
+          { intros k Hk. unfold dataM. rewrite slookup_map_cval.
+            rewrite (slookup_notin k data); [reflexivity|]. intro Hin. apply Hdincl in Hin.
+            rewrite forallb_forall in Hdata. apply in_map_iff in Hin as [[x d] [E Hin]]. cbn in E. subst x.
+            specialize (Hdata _ Hin). cbn in Hdata. apply andb_true_iff in Hdata as [Hb _]. apply andb_true_iff in Hb as [_ Hb]. congruence. }
+          split.
+          { intros x Hx. rewrite Hlook; [apply slookup_map_cval|apply uname_l0_ok; exact Hx| |]; intro E; subst; discriminate. }
+          split; [exact Hdincl|]. split.
+          { split; (rewrite Hlook; [apply Hdk; reflexivity|repeat split; try reflexivity; intro E; discriminate E|intro E; discriminate E|intro E; discriminate E]). }
+          exists cname, fills. split; [reflexivity|].
+          split; [unfold cpush; rewrite cget_snoc; reflexivity|].
+          split. { unfold cpush. rewrite cget_snoc. unfold keyl. cbn [slookup].
+                   rewrite (str_eqb_neq CVARS KEY) by discriminate. rewrite str_eqb_refl.
+                   rewrite (map_escape_names _ _ (Forall2_frel_names _ _ _ HF)). reflexivity. }
+          split; [unfold g6, rid; cbn; lia|].
+          exists entry, osnap. split; [unfold g6; cbn [g_cctx]; apply alookup_aset_same|].
+          split; [reflexivity|]. split; [split; assumption|]. split; [exact HF|exact I]. }
+        assert (Hd' : forall rid0 dl0, WInst rid dl = WInst rid0 dl0 ->
+                  incl (slot_defaults (c_tpl cd)) dl0 /\ (forall a b, In a dl0 -> In b dl0 -> a = b)).
+        { intros rid0 dl0 E. inversion E; subst. split; [apply incl_refl|apply all_same_prop; exact Hsame]. }
+        pose proof (sim_list (c_tpl cd) (WInst rid dl) _ st' g6 snap Hs' Hwt Hd') as Htpl.
+        fold rid keyl dataM.
+        match goal with |- context [mrl mrec ?a ?b (c_tpl cd)] => change (mrl mrec a b (c_tpl cd)) with (mrl mrec g6 snap (c_tpl cd)) end.
+        destruct (rl rec st' (c_tpl cd)) as [a| |]; [|rewrite Htpl; reflexivity|rewrite Htpl; reflexivity].
+        destruct Htpl as [g7 [E7 [Hn7 X7]]]. rewrite E7. cbn [mbind]. eexists. split; [reflexivity|].
+        apply gexact_gext. split; [cbn [g_next set_cctx]; unfold g6 in Hn7; cbn [g_next] in Hn7; lia|].
+        intros j Hj. cbn [g_cctx set_cctx].
+        assert (Hjr : j <> rid) by (unfold rid; lia).
+        rewrite alookup_aremove_other by exact Hjr.
+        specialize (X7 j ltac:(unfold g6; cbn [g_next]; lia)). cbn in X7.
+        destruct (N.eqb j rid) eqn:E; [apply N.eqb_eq in E; contradiction|].
+        rewrite X7. unfold g6. cbn [g_cctx]. rewrite alookup_aset_other by exact Hjr. rewrite Hcc1. reflexivity.
+      - discriminate Hw.
+    Qed.
+  End Step.
+
+  Lemma sim_render fuel : simP (render Isolated lib fuel) (mrender Isolated lib fuel).
+  Proof.
+    induction fuel as [|f IHf].
+    - intros t w G st g c _ _ _. reflexivity.
+    - cbn [render mrender]. apply sim_step. exact IHf.
+  Qed.
+End Sim.
+
+(* ---------- whole programs ---------- *)
+Lemma slookup_In_lib (lib : list (str * cdef)) cn cd : slookup cn lib = Some cd -> In (cn, cd) lib.
+Proof.
+  induction lib as [|[k v] r IH]; [discriminate|]. cbn [slookup]. destruct (str_eqb cn k) eqn:E.
+  - apply str_eqb_eq in E. subst. intro H. inversion H. left. reflexivity.
+  - intro H. right. apply IH. exact H.
+Qed.
+
+Lemma page_lookup (ctx : env) k :
+  cget k [builtins; map (fun kv => (fst kv, CVal (snd kv))) ctx] =
+  match slookup k ctx with Some v => Some (CVal v) | None => slookup k builtins end.
+Proof. cbn [cget]. rewrite slookup_map_cval. destruct (slookup k ctx); reflexivity. Qed.
+
+Lemma not_uname_notin_ctx (ctx : env) k :
+  forallb (fun kv => binder_ok (fst kv)) ctx = true -> uname k = false -> slookup k ctx = None.
+Proof.
+  intros H Hk. apply slookup_notin. intro Hin. apply in_map_iff in Hin as [[x v] [E Hin]]. cbn in E. subst x.
+  rewrite forallb_forall in H. specialize (H _ Hin). cbn in H. apply andb_true_iff in H as [_ H]. congruence.
+Qed.
+
+Theorem mech_refines_sem_isolated_lemma : forall p fuel,
+  wf_prog p = true -> mout_of (mrender_prog fuel p) = embed (render_prog fuel p).
+Proof.
+  intros p fuel Hwf. unfold wf_prog in Hwf.
+  apply andb_true_iff in Hwf as [Hwf Hpage].
+  apply andb_true_iff in Hwf as [Hwf Hctx]. apply andb_true_iff in Hwf as [Hmode Hlibb].
+  unfold mrender_prog, render_prog, mrender_list, render_list.
+  destruct (p_mode p); [|discriminate]. clear Hmode.
+  assert (Hlib : forall cn cd, slookup cn (p_lib p) = Some cd -> wf_cdef cd = true).
+  { intros cn cd H. apply slookup_In_lib in H. rewrite forallb_forall in Hlibb. exact (Hlibb _ H). }
+  set (st0 := {| loc := p_ctx p; out := []; cur := None; prov := [] |}).
+  assert (Hs : srel g0 (page_ctxt p) st0 (map fst (p_ctx p)) WPage).
+  { assert (Hint : forall k, uname k = false -> slookup k builtins = None -> cget k (dicts (page_ctxt p)) = None).
+    { intros k Hk Hb. unfold page_ctxt. cbn [dicts]. rewrite page_lookup, (not_uname_notin_ctx _ _ Hctx Hk). exact Hb. }
+    split; [reflexivity|]. split; [reflexivity|]. split.
+    { intros x Hx. unfold page_ctxt. cbn [dicts st0 loc]. rewrite page_lookup. destruct (slookup x (p_ctx p)); [reflexivity|].
+      destruct (uname_l0_ok x Hx) as [_ [_ [H1 [H2 H3]]]]. unfold builtins. cbn [slookup].
+      rewrite !str_eqb_neq by assumption. reflexivity. }
+    split; [apply incl_refl|]. split; [split; apply Hint; reflexivity|].
+    split; [reflexivity|]. split; apply Hint; reflexivity. }
+  pose proof (sim_list _ _ (sim_render (p_lib p) Hlib fuel) (p_page p) WPage _ st0 g0 (page_ctxt p) Hs Hpage
+                ltac:(intros; discriminate)) as H.
+  fold st0. destruct (rl (render Isolated (p_lib p) fuel) st0 (p_page p)) as [a| |].
+  - destruct H as [g' [E _]]. rewrite E. reflexivity.
+  - rewrite H. reflexivity.
+  - rewrite H. reflexivity.
+Qed.
+
+(* ======================================================================================================== *)
+(* 2. component_context_cache entries are private to their instance                                          *)
+(* ======================================================================================================== *)
+(* whatever is rendered: ids only grow, and an entry that exists keeps its component name, its fills and its outer
+   Context (only its own default-slot bookkeeping may change); an id below the counter that has no entry gets none *)
+Definition stable (g g' : gstate) : Prop :=
+  (g_next g <= g_next g')%N /\
+  forall j, (j < g_next g)%N ->
+    match alookup j (g_cctx g) with
+    | Some ci => exists ci', alookup j (g_cctx g') = Some ci' /\ ci_name ci' = ci_name ci /\
+                             ci_fills ci' = ci_fills ci /\ ci_outer ci' = ci_outer ci
+    | None => alookup j (g_cctx g') = None
+    end.
+
+Lemma stable_refl g : stable g g.
+Proof. split; [lia|]. intros j _. destruct (alookup j (g_cctx g)) as [ci|]; [exists ci; auto|reflexivity]. Qed.
+
+Lemma stable_trans g1 g2 g3 : stable g1 g2 -> stable g2 g3 -> stable g1 g3.
+Proof.
+  intros [H1 H2] [H3 H4]. split; [lia|]. intros j Hj. specialize (H2 j Hj). specialize (H4 j ltac:(lia)).
+  destruct (alookup j (g_cctx g1)) as [ci|].
+  - destruct H2 as [ci' [E [Ha [Hb Hc]]]]. rewrite E in H4. destruct H4 as [ci'' [E' [Ha' [Hb' Hc']]]].
+    exists ci''. repeat split; congruence.
+  - rewrite H2 in H4. exact H4.
+Qed.
+
+Lemma stable_same_cctx g g' : (g_next g <= g_next g')%N -> g_cctx g' = g_cctx g -> stable g g'.
+Proof. intros Hn Hc. split; [exact Hn|]. intros j _. rewrite Hc. destruct (alookup j (g_cctx g)) as [ci|]; [exists ci; auto|reflexivity]. Qed.
+
+Definition keeps (f : gstate -> ctxt -> mres R) : Prop := forall g c a g' c', f g c = MOk (a, g', c') -> stable g g'.
+Definition rec_keeps (rec : gstate -> ctxt -> tpl -> mres R) : Prop :=
+  forall g c t a g' c', rec g c t = MOk (a, g', c') -> stable g g'.
+
+Lemma mfor_items_keeps x bodyf vs : keeps bodyf -> forall i, keeps (mfor_items x bodyf vs i).
+Proof.
+  intro Hb. induction vs as [|v r IH]; intros i g c a g' c' H; cbn [mfor_items] in H.
+  - inversion H; subst. apply stable_refl.
+  - apply mbind_ok_inv in H as [[[a1 g1] c1] [H1 H2]].
+    apply mbind_ok_inv in H2 as [[[a2 g2] c2] [H2 H3]]. inversion H3; subst.
+    eapply stable_trans; [eapply Hb; exact H1|eapply IH; exact H2].
+Qed.
+
+Lemma mfor_keeps x seq bodyf : keeps bodyf -> keeps (mfor x seq bodyf).
+Proof.
+  intros Hb g c a g' c' H. unfold mfor in H. apply mbind_ok_inv in H as [vs [_ H]]. cbn zeta in H.
+  destruct vs as [|v r]; [inversion H; subst; apply stable_refl|].
+  apply mbind_ok_inv in H as [[[a1 g1] c1] [H1 H2]]. inversion H2; subst. eapply mfor_items_keeps; eassumption.
+Qed.
+
+Lemma mwith_keeps x v bodyf : keeps bodyf -> keeps (mwith x v bodyf).
+Proof.
+  intros Hb g c a g' c' H. unfold mwith in H. apply mbind_ok_inv in H as [[[a1 g1] c1] [H1 H2]]. inversion H2; subst.
+  eapply Hb; exact H1.
+Qed.
+
+Lemma mprovide_keeps key kw bodyf : keeps bodyf -> keeps (mprovide key kw bodyf).
+Proof.
+  intros Hb g c a g' c' H. unfold mprovide in H.
+  destruct (mkwargs kw (dicts c)); [|discriminate]. destruct (negb (is_ident key)); [discriminate|].
+  cbn [fresh] in H. apply mbind_ok_inv in H as [[[a1 g2] c1] [H1 H2]]. inversion H2; subst.
+  eapply stable_trans; [|eapply Hb; exact H1]. apply stable_same_cctx; [cbn; lia|reflexivity].
+Qed.
+
+Lemma mfill_keeps name dv defv body : keeps (mfill name dv defv body).
+Proof.
+  intros g c a g' c' H. unfold mfill in H.
+  destruct (meval name (dicts c)) as [[s|l|fs]| | | | | | |]; try discriminate.
+  destruct (negb (opt_ident_ok dv) || negb (opt_ident_ok defv)); [discriminate|].
+  destruct (match dv, defv with Some a, Some b => str_eqb a b | _, _ => false end); [discriminate|].
+  destruct (cget GEN_FILL (dicts c)) as [[]|]; inversion H; subst; try apply stable_refl.
+  apply stable_same_cctx; [cbn; lia|reflexivity].
+Qed.
+
+Section Keep.
+  Variable md : mode.
+  Variable lib : list (str * cdef).
+  Variable rec : gstate -> ctxt -> tpl -> mres R.
+  Hypothesis Hrec : rec_keeps rec.
+
+  Lemma mrl_keeps ts : keeps (fun g c => mrl rec g c ts).
+  Proof.
+    induction ts as [|t r IH]; intros g c a g' c' H; cbn [mrl] in H.
+    - inversion H; subst. apply stable_refl.
+    - apply mbind_ok_inv in H as [[[a1 g1] c1] [H1 H2]].
+      apply mbind_ok_inv in H2 as [[[a2 g2] c2] [H2 H3]]. inversion H3; subst.
+      eapply stable_trans; [eapply Hrec; exact H1|eapply IH; exact H2].
+  Qed.
+
+  Lemma mslotref_keeps body ro ru rd rv : keeps (mslotref rec body ro ru rd rv).
+  Proof.
+    intros g c a g' c' H. unfold mslotref in H. destruct (N.eqb (oid c) ro).
+    - apply mbind_ok_inv in H as [[[a1 g1] c1] [H1 H2]]. inversion H2; subst. eapply mrl_keeps; exact H1.
+    - destruct (N.eqb (oid c) ru); [|discriminate].
+      apply mbind_ok_inv in H as [[[a1 g1] c1] [H1 H2]]. inversion H2; subst. eapply mrl_keeps; exact H1.
+  Qed.
+
+  Lemma mout_keeps e : keeps (mout rec e).
+  Proof.
+    intros g c a g' c' H. unfold mout in H.
+    destruct (meval e (dicts c)) eqn:E; try (cbn in H; inversion H; subst; apply stable_refl);
+      try (destruct (cprint _); inversion H; subst; apply stable_refl).
+    eapply mslotref_keeps; exact H.
+  Qed.
+
+  Lemma mex_keeps_all :
+    (forall t, keeps (fun g c => mex rec g c t)) /\ (forall ts, keeps (mexl rec ts)).
+  Proof.
+    assert (Hnil : keeps (mexl rec [])) by (intros g c a g' c' H; inversion H; subst; apply stable_refl).
+    assert (Hcons : forall t r, keeps (fun g c => mex rec g c t) -> keeps (mexl rec r) -> keeps (mexl rec (t :: r))).
+    { intros t r Ht Hr g c a g' c' H. cbn [mexl] in H.
+      apply mbind_ok_inv in H as [[[a1 g1] c1] [H1 H2]].
+      apply mbind_ok_inv in H2 as [[[a2 g2] c2] [H2 H3]]. inversion H3; subst.
+      eapply stable_trans; [eapply Ht; exact H1|eapply Hr; exact H2]. }
+    assert (HText : forall s, keeps (fun g c => mex rec g c (TText s))) by (intros s g c a g' c' H; inversion H; subst; apply stable_refl).
+    assert (HOut : forall e, keeps (fun g c => mex rec g c (TOut e))) by (intros e g c a g' c' H; eapply mout_keeps; exact H).
+    assert (HIf : forall cnd a b, keeps (mexl rec a) -> keeps (mexl rec b) -> keeps (fun g c => mex rec g c (TIf cnd a b))).
+    { intros cnd a b Ha Hb g c a0 g' c' H. cbn [mex] in H. destruct (ctruthy _); [eapply Ha|eapply Hb]; exact H. }
+    assert (HFor : forall x e body, keeps (mexl rec body) -> keeps (fun g c => mex rec g c (TFor x e body))).
+    { intros x e body Hq g c a g' c' H. cbn [mex] in H. eapply (mfor_keeps _ _ _ Hq); exact H. }
+    assert (HWith : forall x e body, keeps (mexl rec body) -> keeps (fun g c => mex rec g c (TWith x e body))).
+    { intros x e body Hq g c a g' c' H. cbn [mex] in H. eapply (mwith_keeps _ _ _ Hq); exact H. }
+    assert (HSlot : forall n d r data body, keeps (mexl rec body) -> keeps (fun g c => mex rec g c (TSlot n d r data body))).
+    { intros n d r data body _ g c a g' c' H. cbn [mex] in H. destruct (mkwargs data (dicts c)); inversion H; subst; apply stable_refl. }
+    assert (HFill : forall n dv df body, keeps (mexl rec body) -> keeps (fun g c => mex rec g c (TFill n dv df body))).
+    { intros n dv df body _ g c a g' c' H. eapply mfill_keeps; exact H. }
+    assert (HComp : forall cn kw o body, keeps (mexl rec body) -> keeps (fun g c => mex rec g c (TComp cn kw o body))).
+    { intros cn kw o body _ g c a g' c' H. cbn [mex] in H. destruct (mkwargs kw (dicts c)); inversion H; subst; apply stable_refl. }
+    assert (HProvide : forall k kw body, keeps (mexl rec body) -> keeps (fun g c => mex rec g c (TProvide k kw body))).
+    { intros k kw body Hq g c a g' c' H. cbn [mex] in H. eapply (mprovide_keeps _ _ _ Hq); exact H. }
+    split.
+    - exact (tpl_ind3 _ _ Hnil Hcons HText HOut HIf HFor HWith HSlot HFill HComp HProvide).
+    - exact (tpls_ind3 _ _ Hnil Hcons HText HOut HIf HFor HWith HSlot HFill HComp HProvide).
+  Qed.
+
+  Lemma m_resolve_fills_keeps body g c fills g' c' :
+    m_resolve_fills rec g c body = MOk (fills, g', c') -> stable g g'.
+  Proof.
+    unfold m_resolve_fills. destruct body as [|t r]; [intro H; inversion H; subst; apply stable_refl|].
+    cbn [fresh]. intro H. apply mbind_ok_inv in H as [[[content g3] c2] [H1 H2]].
+    apply (proj2 mex_keeps_all) in H1.
+    assert (Hs : stable g g3).
+    { eapply stable_trans; [|exact H1]. apply stable_same_cctx; [cbn; lia|reflexivity]. }
+    destruct (match alookup (g_next g) (g_collect g3) with Some l => l | None => [] end).
+    - destruct (body_is_empty (t :: r)); inversion H2; subst; exact Hs.
+    - destruct (negb (all_space content)); [discriminate|]. destruct (has_dup _); [discriminate|]. inversion H2; subst; exact Hs.
+  Qed.
+
+  Lemma m_render_func_keeps f sdata sref : keeps (m_render_func rec f sdata sref).
+  Proof.
+    intros g c a g' c' H. unfold m_render_func in H.
+    apply mbind_ok_inv in H as [[[a1 g1] c1] [H1 H2]]. apply mrl_keeps in H1.
+    destruct (CtxStack.py_popZ _ _); inversion H2; subst. exact H1.
+  Qed.
+
+  Lemma slot_default_check_stable rid ci name isd g g1 :
+    alookup rid (g_cctx g) = Some ci -> slot_default_check rid ci name isd g = MOk g1 -> stable g g1.
+  Proof.
+    intros Ha H. unfold slot_default_check in H. destruct isd; [|inversion H; subst; apply stable_refl].
+    destruct (ci_default ci) as [d|].
+    - destruct (negb (str_eqb name d)); inversion H; subst. apply stable_refl.
+    - inversion H; subst. split; [cbn; lia|]. intros j _. cbn [g_cctx set_cctx].
+      destruct (N.eqb j rid) eqn:E.
+      + apply N.eqb_eq in E. subst j. rewrite Ha, alookup_aset_same. eexists. split; [reflexivity|]. auto.
+      + rewrite alookup_aset_other by (intro E2; subst; rewrite N.eqb_refl in E; discriminate).
+        destruct (alookup j (g_cctx g)) as [cj|]; [exists cj; auto|reflexivity].
+  Qed.
+
+  Lemma mslot_keeps name isd isr data body : keeps (mslot md rec name isd isr data body).
+  Proof.
+    intros g c a g' c' H. unfold mslot in H.
+    destruct (mkwargs data (dicts c)) as [kwv|]; [|discriminate].
+    destruct (is_extracting (dicts c)); [inversion H; subst; apply stable_refl|].
+    destruct (cget KEY (dicts c)) as [[| | |rid| | | |]|]; try discriminate.
+    destruct (alookup rid (g_cctx g)) as [ci|] eqn:Ea; [|discriminate].
+    apply mbind_ok_inv in H as [g1 [Hg1 H]]. apply (slot_default_check_stable _ _ _ _ _ _ Ea) in Hg1.
+    destruct (isd && negb (str_eqb name default_key) && smem name (ci_fills ci) && smem default_key (ci_fills ci)); [discriminate|].
+    set (filled := slookup _ _) in H.
+    assert (Hmain : forall isf,
+      mbind (slot_extra md ci isf (dicts c)) (fun extra =>
+        let f := match filled with Some f => f | None => unfilled_fn body end in
+        if negb isf || is_django md then
+          let sref := CSlotRef body (oid c) (oid c) (dicts c) (slot_rvars (dicts c)) in
+          mbind (m_render_func rec f (VRec kwv) sref g1 (with_dicts c (cpush extra (dicts c)))) (fun '(a, g3, c2) =>
+          MOk (a, g3, with_dicts c2 (cpop (dicts c2))))
+        else
+          let '(used, g2) := match ci_outer ci with
+                             | Some o => (o, g1)
+                             | None => let '(o, g') := fresh g1 in ({| oid := o; dicts := [builtins] |}, g')
+                             end in
+          let sref := CSlotRef body (oid c) (oid used) (dicts c) (slot_rvars (dicts c)) in
+          mbind (m_render_func rec f (VRec kwv) sref g2 (with_dicts used (cpush extra (dicts used)))) (fun '(a, g3, _) =>
+          MOk (a, g3, c))) = MOk (a, g', c') -> stable g1 g').
+    { intros isf H0. apply mbind_ok_inv in H0 as [extra [_ H0]]. cbn zeta in H0.
+      destruct (negb isf || is_django md).
+      - apply mbind_ok_inv in H0 as [[[a1 g3] c2] [H1 H2]]. inversion H2; subst. eapply m_render_func_keeps; exact H1.
+      - destruct (ci_outer ci) as [o|].
+        + apply mbind_ok_inv in H0 as [[[a1 g3] c2] [H1 H2]]. inversion H2; subst. eapply m_render_func_keeps; exact H1.
+        + cbn [fresh] in H0. apply mbind_ok_inv in H0 as [[[a1 g3] c2] [H1 H2]]. inversion H2; subst.
+          eapply stable_trans; [|eapply m_render_func_keeps; exact H1]. apply stable_same_cctx; [cbn; lia|reflexivity]. }
+    eapply stable_trans; [exact Hg1|].
+    destruct filled, isr; try discriminate; eapply Hmain; exact H.
+  Qed.
+
+  Lemma mcomp_keeps cname kw only body : keeps (mcomp md lib rec cname kw only body).
+  Proof.
+    intros g c a g' c' H. unfold mcomp in H.
+    destruct (mkwargs kw (dicts c)) as [kwv|]; [|discriminate].
+    destruct (is_extracting (dicts c)); [inversion H; subst; apply stable_refl|].
+    destruct (slookup cname lib) as [cd|]; [|discriminate].
+    apply mbind_ok_inv in H as [[[fills g1] c1] [H1 H2]].
+    apply m_resolve_fills_keeps in H1.
+    eapply stable_trans; [exact H1|]. clear H1.
+    assert (Hmain : forall cc g2, (g_next g1 <= g_next g2)%N -> g_cctx g2 = g_cctx g1 ->
+      (let '(rid, g3) := fresh g2 in
+       let '(outer_snap, g4) := snapshot g3 c1 in
+       mbind (m_eval_data (c_data cd) kwv g4 (dicts cc)) (fun data =>
+         let ds1 := cpush data (dicts cc) in
+         let ds2 := cpush [(KEY, CId rid); (CVARS, CVars (map (fun kf => escape_name (fst kf)) fills))] ds1 in
+         let '(snap, g5) := snapshot g4 (with_dicts cc ds2) in
+         let cc_after := with_dicts cc (cpop (cpop ds2)) in
+         let g6 := set_cctx g5 (aset rid {| ci_name := cname; ci_fills := fills; ci_default := None; ci_outer := Some outer_snap |} (g_cctx g5)) in
+         mbind (mrl rec g6 snap (c_tpl cd)) (fun '(a, g7, _) =>
+         let g8 := set_cctx g7 (aremove rid (g_cctx g7)) in
+         MOk (a, g8, if only || negb (is_django md) then c1 else cc_after)))) = MOk (a, g', c') -> stable g1 g').
+    { intros cc g2 Hn Hc H0. unfold fresh, snapshot in H0. cbn [g_next g_cctx g_collect g_prov fresh] in H0.
+      apply mbind_ok_inv in H0 as [data [_ H0]]. cbn zeta in H0.
+      apply mbind_ok_inv in H0 as [[[a1 g7] c7] [H1 H0]]. inversion H0; subst. clear H0.
+      apply mrl_keeps in H1. destruct H1 as [Hn7 H7]. cbn [g_next g_cctx set_cctx] in *.
+      unfold stable. cbn [g_next g_cctx set_cctx]. split; [lia|]. intros j Hj.
+      assert (Hjr : j <> g_next g2) by lia.
+      rewrite alookup_aremove_other by exact Hjr.
+      specialize (H7 j ltac:(lia)). rewrite alookup_aset_other in H7 by exact Hjr. rewrite Hc in H7. exact H7. }
+    destruct (only || negb (is_django md)).
+    - destruct (make_isolated_context_copy g1 c1) as [cc g2] eqn:Ec.
+      unfold make_isolated_context_copy in Ec. cbn [fresh] in Ec. inversion Ec; subst. clear Ec.
+      eapply (Hmain _ _ _ _ H2). Unshelve. all: cbn; try lia; reflexivity.
+    - eapply (Hmain c1 g1 _ _ H2). Unshelve. all: try lia; reflexivity.
+  Qed.
+
+  Lemma mstep_keeps t : keeps (fun g c => mstep md lib rec g c t).
+  Proof.
+    intros g c a g' c' H. destruct t as [s|e|cnd x y|x e body|x e body|name isd isr data body|nm dv defv body|cname kw only body|key kw body];
+      cbn [mstep] in H.
+    - inversion H; subst. apply stable_refl.
+    - eapply mout_keeps; exact H.
+    - destruct (ctruthy _); eapply mrl_keeps; exact H.
+    - eapply (mfor_keeps x _ (fun g c => mrl rec g c body)); [apply mrl_keeps|exact H].
+    - eapply (mwith_keeps x _ (fun g c => mrl rec g c body)); [apply mrl_keeps|exact H].
+    - eapply mslot_keeps; exact H.
+    - destruct (is_extracting (dicts c)); [|discriminate]. eapply mfill_keeps; exact H.
+    - eapply mcomp_keeps; exact H.
+    - eapply (mprovide_keeps key kw (fun g c => mrl rec g c body)); [apply mrl_keeps|exact H].
+  Qed.
+End Keep.
+
+Lemma cctx_stable_lemma md lib fuel : forall g c t a g' c',
+  mrender md lib fuel g c t = MOk (a, g', c') -> stable g g'.
+Proof.
+  induction fuel as [|f IH]; intros g c t a g' c' H; [discriminate|].
+  cbn [mrender] in H. eapply (mstep_keeps md lib (mrender md lib f)); [|exact H].
+  intros g0 c0 t0 a0 g0' c0' H0. eapply IH; exact H0.
+Qed.
+
+(* read side: for an instance created by a component tag (it has an outer Context), a slot tag takes its fills from
+   the cache entry of the id it found under _DJC_COMPONENT_CTX - whatever else is in the cache or on the layer list *)
+Lemma slot_fills_of_own md rid ci name g ds : ci_outer ci <> None -> slot_fills_of md rid ci name g ds = ci_fills ci.
+Proof.
+  intro H. unfold slot_fills_of. destruct (ci_outer ci); [|contradiction]. rewrite andb_false_r. reflexivity.
 Qed.
